@@ -9,12 +9,6 @@ type nat =
 | O
 | S of nat
 
-(** val option_map : ('a1 -> 'a2) -> 'a1 option -> 'a2 option **)
-
-let option_map f = function
-| Some a -> Some (f a)
-| None -> None
-
 (** val fst : ('a1 * 'a2) -> 'a1 **)
 
 let fst = function
@@ -43,14 +37,12 @@ type comparison =
 | Lt
 | Gt
 
-module Coq__1 = struct
- (** val add : nat -> nat -> nat **)
- let rec add n0 m =
-   match n0 with
-   | O -> m
-   | S p -> S (add p m)
-end
-include Coq__1
+(** val add : nat -> nat -> nat **)
+
+let rec add n0 m =
+  match n0 with
+  | O -> m
+  | S p -> S (add p m)
 
 type positive =
 | XI of positive
@@ -63,17 +55,6 @@ type n =
 
 module Nat =
  struct
-  (** val eqb : nat -> nat -> bool **)
-
-  let rec eqb n0 m =
-    match n0 with
-    | O -> (match m with
-            | O -> true
-            | S _ -> false)
-    | S n' -> (match m with
-               | O -> false
-               | S m' -> eqb n' m')
-
   (** val leb : nat -> nat -> bool **)
 
   let rec leb n0 m =
@@ -105,45 +86,6 @@ module Coq_Pos =
   | XI p -> XO (succ p)
   | XO p -> XI p
   | XH -> XO XH
-
-  (** val add : positive -> positive -> positive **)
-
-  let rec add x y =
-    match x with
-    | XI p ->
-      (match y with
-       | XI q -> XO (add_carry p q)
-       | XO q -> XI (add p q)
-       | XH -> XO (succ p))
-    | XO p ->
-      (match y with
-       | XI q -> XI (add p q)
-       | XO q -> XO (add p q)
-       | XH -> XI p)
-    | XH -> (match y with
-             | XI q -> XO (succ q)
-             | XO q -> XI q
-             | XH -> XO XH)
-
-  (** val add_carry : positive -> positive -> positive **)
-
-  and add_carry x y =
-    match x with
-    | XI p ->
-      (match y with
-       | XI q -> XI (add_carry p q)
-       | XO q -> XO (add_carry p q)
-       | XH -> XI (succ p))
-    | XO p ->
-      (match y with
-       | XI q -> XO (add_carry p q)
-       | XO q -> XI (add p q)
-       | XH -> XO (succ p))
-    | XH ->
-      (match y with
-       | XI q -> XI (succ q)
-       | XO q -> XO (succ q)
-       | XH -> XI XH)
 
   (** val pred_double : positive -> positive **)
 
@@ -211,14 +153,6 @@ module Coq_Pos =
        | XH -> double_pred_mask p)
     | XH -> IsNeg
 
-  (** val mul : positive -> positive -> positive **)
-
-  let rec mul x y =
-    match x with
-    | XI p -> add y (XO (mul p y))
-    | XO p -> XO (mul p y)
-    | XH -> y
-
   (** val size : positive -> positive **)
 
   let rec size = function
@@ -274,7 +208,7 @@ module Coq_Pos =
   (** val to_nat : positive -> nat **)
 
   let to_nat x =
-    iter_op Coq__1.add x (S O)
+    iter_op add x (S O)
 
   (** val of_succ_nat : nat -> positive **)
 
@@ -297,15 +231,6 @@ module N =
   | N0 -> N0
   | Npos p -> Npos (XO p)
 
-  (** val add : n -> n -> n **)
-
-  let add n0 m =
-    match n0 with
-    | N0 -> m
-    | Npos p -> (match m with
-                 | N0 -> n0
-                 | Npos q -> Npos (Coq_Pos.add p q))
-
   (** val sub : n -> n -> n **)
 
   let sub n0 m =
@@ -318,15 +243,6 @@ module N =
          (match Coq_Pos.sub_mask n' m' with
           | Coq_Pos.IsPos p -> Npos p
           | _ -> N0))
-
-  (** val mul : n -> n -> n **)
-
-  let mul n0 m =
-    match n0 with
-    | N0 -> N0
-    | Npos p -> (match m with
-                 | N0 -> N0
-                 | Npos q -> Npos (Coq_Pos.mul p q))
 
   (** val compare : n -> n -> comparison **)
 
@@ -450,55 +366,11 @@ let ascii_of_N = function
 let ascii_of_nat a =
   ascii_of_N (N.of_nat a)
 
-(** val n_of_digits : bool list -> n **)
-
-let rec n_of_digits = function
-| [] -> N0
-| b :: l' ->
-  N.add (if b then Npos XH else N0) (N.mul (Npos (XO XH)) (n_of_digits l'))
-
-(** val n_of_ascii : char -> n **)
-
-let n_of_ascii a =
-  (* If this appears, you're using Ascii internals. Please don't *)
- (fun f c ->
-  let n = Char.code c in
-  let h i = (n land (1 lsl i)) <> 0 in
-  f (h 0) (h 1) (h 2) (h 3) (h 4) (h 5) (h 6) (h 7))
-    (fun a0 a1 a2 a3 a4 a5 a6 a7 ->
-    n_of_digits
-      (a0 :: (a1 :: (a2 :: (a3 :: (a4 :: (a5 :: (a6 :: (a7 :: [])))))))))
-    a
-
-(** val nat_of_ascii : char -> nat **)
-
-let nat_of_ascii a =
-  N.to_nat (n_of_ascii a)
-
 (** val map : ('a1 -> 'a2) -> 'a1 list -> 'a2 list **)
 
 let rec map f = function
 | [] -> []
 | a :: t -> (f a) :: (map f t)
-
-(** val flat_map : ('a1 -> 'a2 list) -> 'a1 list -> 'a2 list **)
-
-let rec flat_map f = function
-| [] -> []
-| x :: t -> app (f x) (flat_map f t)
-
-(** val fold_left : ('a1 -> 'a2 -> 'a1) -> 'a2 list -> 'a1 -> 'a1 **)
-
-let rec fold_left f l a0 =
-  match l with
-  | [] -> a0
-  | b :: t -> fold_left f t (f a0 b)
-
-(** val existsb : ('a1 -> bool) -> 'a1 list -> bool **)
-
-let rec existsb f = function
-| [] -> false
-| a :: l0 -> (||) (f a) (existsb f l0)
 
 (** val forallb : ('a1 -> bool) -> 'a1 list -> bool **)
 
@@ -541,13 +413,6 @@ type err =
 type 'a result =
 | OK of 'a
 | Error of err
-
-(** val bind : 'a1 result -> ('a1 -> 'a2 result) -> 'a2 result **)
-
-let bind r f =
-  match r with
-  | OK a -> f a
-  | Error e -> Error e
 
 (** val err_name : err -> char list **)
 
@@ -681,296 +546,6 @@ let rec d_list d = function
 let d_strs = function
 | SAtom _ -> None
 | SList l -> d_list d_str l
-
-(** val d_bool : sexp -> bool option **)
-
-let d_bool = function
-| SAtom s0 ->
-  (match s0 with
-   | [] -> None
-   | a::s1 ->
-     (* If this appears, you're using Ascii internals. Please don't *)
- (fun f c ->
-  let n = Char.code c in
-  let h i = (n land (1 lsl i)) <> 0 in
-  f (h 0) (h 1) (h 2) (h 3) (h 4) (h 5) (h 6) (h 7))
-       (fun b b0 b1 b2 b3 b4 b5 b6 ->
-       if b
-       then None
-       else if b0
-            then if b1
-                 then if b2
-                      then None
-                      else if b3
-                           then None
-                           else if b4
-                                then if b5
-                                     then if b6
-                                          then None
-                                          else (match s1 with
-                                                | [] -> None
-                                                | a0::s2 ->
-                                                  (* If this appears, you're using Ascii internals. Please don't *)
- (fun f c ->
-  let n = Char.code c in
-  let h i = (n land (1 lsl i)) <> 0 in
-  f (h 0) (h 1) (h 2) (h 3) (h 4) (h 5) (h 6) (h 7))
-                                                    (fun b7 b8 b9 b10 b11 b12 b13 b14 ->
-                                                    if b7
-                                                    then if b8
-                                                         then None
-                                                         else if b9
-                                                              then None
-                                                              else if b10
-                                                                   then None
-                                                                   else 
-                                                                    if b11
-                                                                    then None
-                                                                    else 
-                                                                    if b12
-                                                                    then 
-                                                                    if b13
-                                                                    then 
-                                                                    if b14
-                                                                    then None
-                                                                    else 
-                                                                    (match s2 with
-                                                                    | [] ->
-                                                                    None
-                                                                    | a1::s3 ->
-                                                                    (* If this appears, you're using Ascii internals. Please don't *)
- (fun f c ->
-  let n = Char.code c in
-  let h i = (n land (1 lsl i)) <> 0 in
-  f (h 0) (h 1) (h 2) (h 3) (h 4) (h 5) (h 6) (h 7))
-                                                                    (fun b15 b16 b17 b18 b19 b20 b21 b22 ->
-                                                                    if b15
-                                                                    then None
-                                                                    else 
-                                                                    if b16
-                                                                    then None
-                                                                    else 
-                                                                    if b17
-                                                                    then 
-                                                                    if b18
-                                                                    then 
-                                                                    if b19
-                                                                    then None
-                                                                    else 
-                                                                    if b20
-                                                                    then 
-                                                                    if b21
-                                                                    then 
-                                                                    if b22
-                                                                    then None
-                                                                    else 
-                                                                    (match s3 with
-                                                                    | [] ->
-                                                                    None
-                                                                    | a2::s4 ->
-                                                                    (* If this appears, you're using Ascii internals. Please don't *)
- (fun f c ->
-  let n = Char.code c in
-  let h i = (n land (1 lsl i)) <> 0 in
-  f (h 0) (h 1) (h 2) (h 3) (h 4) (h 5) (h 6) (h 7))
-                                                                    (fun b23 b24 b25 b26 b27 b28 b29 b30 ->
-                                                                    if b23
-                                                                    then 
-                                                                    if b24
-                                                                    then 
-                                                                    if b25
-                                                                    then None
-                                                                    else 
-                                                                    if b26
-                                                                    then None
-                                                                    else 
-                                                                    if b27
-                                                                    then 
-                                                                    if b28
-                                                                    then 
-                                                                    if b29
-                                                                    then 
-                                                                    if b30
-                                                                    then None
-                                                                    else 
-                                                                    (match s4 with
-                                                                    | [] ->
-                                                                    None
-                                                                    | a3::s5 ->
-                                                                    (* If this appears, you're using Ascii internals. Please don't *)
- (fun f c ->
-  let n = Char.code c in
-  let h i = (n land (1 lsl i)) <> 0 in
-  f (h 0) (h 1) (h 2) (h 3) (h 4) (h 5) (h 6) (h 7))
-                                                                    (fun b31 b32 b33 b34 b35 b36 b37 b38 ->
-                                                                    if b31
-                                                                    then 
-                                                                    if b32
-                                                                    then None
-                                                                    else 
-                                                                    if b33
-                                                                    then 
-                                                                    if b34
-                                                                    then None
-                                                                    else 
-                                                                    if b35
-                                                                    then None
-                                                                    else 
-                                                                    if b36
-                                                                    then 
-                                                                    if b37
-                                                                    then 
-                                                                    if b38
-                                                                    then None
-                                                                    else 
-                                                                    (match s5 with
-                                                                    | [] ->
-                                                                    Some false
-                                                                    | _::_ ->
-                                                                    None)
-                                                                    else None
-                                                                    else None
-                                                                    else None
-                                                                    else None)
-                                                                    a3)
-                                                                    else None
-                                                                    else None
-                                                                    else None
-                                                                    else None
-                                                                    else None)
-                                                                    a2)
-                                                                    else None
-                                                                    else None
-                                                                    else None
-                                                                    else None)
-                                                                    a1)
-                                                                    else None
-                                                                    else None
-                                                    else None)
-                                                    a0)
-                                     else None
-                                else None
-                 else None
-            else if b1
-                 then if b2
-                      then None
-                      else if b3
-                           then if b4
-                                then if b5
-                                     then if b6
-                                          then None
-                                          else (match s1 with
-                                                | [] -> None
-                                                | a0::s2 ->
-                                                  (* If this appears, you're using Ascii internals. Please don't *)
- (fun f c ->
-  let n = Char.code c in
-  let h i = (n land (1 lsl i)) <> 0 in
-  f (h 0) (h 1) (h 2) (h 3) (h 4) (h 5) (h 6) (h 7))
-                                                    (fun b7 b8 b9 b10 b11 b12 b13 b14 ->
-                                                    if b7
-                                                    then None
-                                                    else if b8
-                                                         then if b9
-                                                              then None
-                                                              else if b10
-                                                                   then None
-                                                                   else 
-                                                                    if b11
-                                                                    then 
-                                                                    if b12
-                                                                    then 
-                                                                    if b13
-                                                                    then 
-                                                                    if b14
-                                                                    then None
-                                                                    else 
-                                                                    (match s2 with
-                                                                    | [] ->
-                                                                    None
-                                                                    | a1::s3 ->
-                                                                    (* If this appears, you're using Ascii internals. Please don't *)
- (fun f c ->
-  let n = Char.code c in
-  let h i = (n land (1 lsl i)) <> 0 in
-  f (h 0) (h 1) (h 2) (h 3) (h 4) (h 5) (h 6) (h 7))
-                                                                    (fun b15 b16 b17 b18 b19 b20 b21 b22 ->
-                                                                    if b15
-                                                                    then 
-                                                                    if b16
-                                                                    then None
-                                                                    else 
-                                                                    if b17
-                                                                    then 
-                                                                    if b18
-                                                                    then None
-                                                                    else 
-                                                                    if b19
-                                                                    then 
-                                                                    if b20
-                                                                    then 
-                                                                    if b21
-                                                                    then 
-                                                                    if b22
-                                                                    then None
-                                                                    else 
-                                                                    (match s3 with
-                                                                    | [] ->
-                                                                    None
-                                                                    | a2::s4 ->
-                                                                    (* If this appears, you're using Ascii internals. Please don't *)
- (fun f c ->
-  let n = Char.code c in
-  let h i = (n land (1 lsl i)) <> 0 in
-  f (h 0) (h 1) (h 2) (h 3) (h 4) (h 5) (h 6) (h 7))
-                                                                    (fun b23 b24 b25 b26 b27 b28 b29 b30 ->
-                                                                    if b23
-                                                                    then 
-                                                                    if b24
-                                                                    then None
-                                                                    else 
-                                                                    if b25
-                                                                    then 
-                                                                    if b26
-                                                                    then None
-                                                                    else 
-                                                                    if b27
-                                                                    then None
-                                                                    else 
-                                                                    if b28
-                                                                    then 
-                                                                    if b29
-                                                                    then 
-                                                                    if b30
-                                                                    then None
-                                                                    else 
-                                                                    (match s4 with
-                                                                    | [] ->
-                                                                    Some true
-                                                                    | _::_ ->
-                                                                    None)
-                                                                    else None
-                                                                    else None
-                                                                    else None
-                                                                    else None)
-                                                                    a2)
-                                                                    else None
-                                                                    else None
-                                                                    else None
-                                                                    else None
-                                                                    else None)
-                                                                    a1)
-                                                                    else None
-                                                                    else None
-                                                                    else None
-                                                         else None)
-                                                    a0)
-                                     else None
-                                else None
-                           else None
-                 else None)
-       a)
-| SList _ -> None
 
 (** val bad_input : sexp **)
 
@@ -1319,1828 +894,36 @@ let audit e doc =
 (** val math_rows : mrow list **)
 
 let math_rows =
-  { m_py = ('s'::('i'::('n'::[]))); m_cpp =
-    ('s'::('t'::('d'::(':'::(':'::('s'::('i'::('n'::[])))))))); m_inc =
-    (('c'::('m'::('a'::('t'::('h'::[]))))) :: []); m_ret =
-    ('d'::('o'::('u'::('b'::('l'::('e'::[])))))) } :: ({ m_py =
-    ('c'::('o'::('s'::[]))); m_cpp =
-    ('s'::('t'::('d'::(':'::(':'::('c'::('o'::('s'::[])))))))); m_inc =
-    (('c'::('m'::('a'::('t'::('h'::[]))))) :: []); m_ret =
-    ('d'::('o'::('u'::('b'::('l'::('e'::[])))))) } :: ({ m_py =
-    ('t'::('a'::('n'::[]))); m_cpp =
-    ('s'::('t'::('d'::(':'::(':'::('t'::('a'::('n'::[])))))))); m_inc =
-    (('c'::('m'::('a'::('t'::('h'::[]))))) :: []); m_ret =
-    ('d'::('o'::('u'::('b'::('l'::('e'::[])))))) } :: ({ m_py =
-    ('a'::('c'::('o'::('s'::[])))); m_cpp =
-    ('s'::('t'::('d'::(':'::(':'::('a'::('c'::('o'::('s'::[])))))))));
-    m_inc = (('c'::('m'::('a'::('t'::('h'::[]))))) :: []); m_ret =
-    ('d'::('o'::('u'::('b'::('l'::('e'::[])))))) } :: ({ m_py =
-    ('a'::('s'::('i'::('n'::[])))); m_cpp =
-    ('s'::('t'::('d'::(':'::(':'::('a'::('s'::('i'::('n'::[])))))))));
-    m_inc = (('c'::('m'::('a'::('t'::('h'::[]))))) :: []); m_ret =
-    ('d'::('o'::('u'::('b'::('l'::('e'::[])))))) } :: ({ m_py =
-    ('a'::('t'::('a'::('n'::[])))); m_cpp =
-    ('s'::('t'::('d'::(':'::(':'::('a'::('t'::('a'::('n'::[])))))))));
-    m_inc = (('c'::('m'::('a'::('t'::('h'::[]))))) :: []); m_ret =
-    ('d'::('o'::('u'::('b'::('l'::('e'::[])))))) } :: ({ m_py =
-    ('a'::('t'::('a'::('n'::('2'::[]))))); m_cpp =
-    ('s'::('t'::('d'::(':'::(':'::('a'::('t'::('a'::('n'::('2'::[]))))))))));
-    m_inc = (('c'::('m'::('a'::('t'::('h'::[]))))) :: []); m_ret =
-    ('d'::('o'::('u'::('b'::('l'::('e'::[])))))) } :: ({ m_py =
-    ('s'::('i'::('n'::('h'::[])))); m_cpp =
-    ('s'::('t'::('d'::(':'::(':'::('s'::('i'::('n'::('h'::[])))))))));
-    m_inc = (('c'::('m'::('a'::('t'::('h'::[]))))) :: []); m_ret =
-    ('d'::('o'::('u'::('b'::('l'::('e'::[])))))) } :: ({ m_py =
-    ('c'::('o'::('s'::('h'::[])))); m_cpp =
-    ('s'::('t'::('d'::(':'::(':'::('c'::('o'::('s'::('h'::[])))))))));
-    m_inc = (('c'::('m'::('a'::('t'::('h'::[]))))) :: []); m_ret =
-    ('d'::('o'::('u'::('b'::('l'::('e'::[])))))) } :: ({ m_py =
-    ('t'::('a'::('n'::('h'::[])))); m_cpp =
-    ('s'::('t'::('d'::(':'::(':'::('t'::('a'::('n'::('h'::[])))))))));
-    m_inc = (('c'::('m'::('a'::('t'::('h'::[]))))) :: []); m_ret =
-    ('d'::('o'::('u'::('b'::('l'::('e'::[])))))) } :: ({ m_py =
-    ('a'::('s'::('i'::('n'::('h'::[]))))); m_cpp =
-    ('s'::('t'::('d'::(':'::(':'::('a'::('s'::('i'::('n'::('h'::[]))))))))));
-    m_inc = (('c'::('m'::('a'::('t'::('h'::[]))))) :: []); m_ret =
-    ('d'::('o'::('u'::('b'::('l'::('e'::[])))))) } :: ({ m_py =
-    ('a'::('c'::('o'::('s'::('h'::[]))))); m_cpp =
-    ('s'::('t'::('d'::(':'::(':'::('a'::('c'::('o'::('s'::('h'::[]))))))))));
-    m_inc = (('c'::('m'::('a'::('t'::('h'::[]))))) :: []); m_ret =
-    ('d'::('o'::('u'::('b'::('l'::('e'::[])))))) } :: ({ m_py =
-    ('a'::('t'::('a'::('n'::('h'::[]))))); m_cpp =
-    ('s'::('t'::('d'::(':'::(':'::('a'::('t'::('a'::('n'::('h'::[]))))))))));
-    m_inc = (('c'::('m'::('a'::('t'::('h'::[]))))) :: []); m_ret =
-    ('d'::('o'::('u'::('b'::('l'::('e'::[])))))) } :: ({ m_py =
-    ('e'::('x'::('p'::[]))); m_cpp =
-    ('s'::('t'::('d'::(':'::(':'::('e'::('x'::('p'::[])))))))); m_inc =
-    (('c'::('m'::('a'::('t'::('h'::[]))))) :: []); m_ret =
-    ('d'::('o'::('u'::('b'::('l'::('e'::[])))))) } :: ({ m_py =
-    ('l'::('d'::('e'::('x'::('p'::[]))))); m_cpp =
-    ('s'::('t'::('d'::(':'::(':'::('l'::('d'::('e'::('x'::('p'::[]))))))))));
-    m_inc = (('c'::('m'::('a'::('t'::('h'::[]))))) :: []); m_ret =
-    ('d'::('o'::('u'::('b'::('l'::('e'::[])))))) } :: ({ m_py =
-    ('l'::('o'::('g'::[]))); m_cpp =
-    ('s'::('t'::('d'::(':'::(':'::('l'::('o'::('g'::[])))))))); m_inc =
-    (('c'::('m'::('a'::('t'::('h'::[]))))) :: []); m_ret =
-    ('d'::('o'::('u'::('b'::('l'::('e'::[])))))) } :: ({ m_py =
-    ('l'::('n'::[])); m_cpp =
-    ('s'::('t'::('d'::(':'::(':'::('l'::('o'::('g'::[])))))))); m_inc =
-    (('c'::('m'::('a'::('t'::('h'::[]))))) :: []); m_ret =
-    ('d'::('o'::('u'::('b'::('l'::('e'::[])))))) } :: ({ m_py =
-    ('l'::('o'::('g'::('1'::('0'::[]))))); m_cpp =
-    ('s'::('t'::('d'::(':'::(':'::('l'::('o'::('g'::('1'::('0'::[]))))))))));
-    m_inc = (('c'::('m'::('a'::('t'::('h'::[]))))) :: []); m_ret =
-    ('d'::('o'::('u'::('b'::('l'::('e'::[])))))) } :: ({ m_py =
-    ('e'::('x'::('p'::('2'::[])))); m_cpp =
-    ('s'::('t'::('d'::(':'::(':'::('e'::('x'::('p'::('2'::[])))))))));
-    m_inc = (('c'::('m'::('a'::('t'::('h'::[]))))) :: []); m_ret =
-    ('d'::('o'::('u'::('b'::('l'::('e'::[])))))) } :: ({ m_py =
-    ('e'::('x'::('p'::('m'::('1'::[]))))); m_cpp =
-    ('s'::('t'::('d'::(':'::(':'::('e'::('x'::('p'::('m'::('1'::[]))))))))));
-    m_inc = (('c'::('m'::('a'::('t'::('h'::[]))))) :: []); m_ret =
-    ('d'::('o'::('u'::('b'::('l'::('e'::[])))))) } :: ({ m_py =
-    ('i'::('l'::('o'::('g'::('b'::[]))))); m_cpp =
-    ('s'::('t'::('d'::(':'::(':'::('i'::('l'::('o'::('g'::('b'::[]))))))))));
-    m_inc = (('c'::('m'::('a'::('t'::('h'::[]))))) :: []); m_ret =
-    ('d'::('o'::('u'::('b'::('l'::('e'::[])))))) } :: ({ m_py =
-    ('l'::('o'::('g'::('1'::('p'::[]))))); m_cpp =
-    ('s'::('t'::('d'::(':'::(':'::('l'::('o'::('g'::('1'::('p'::[]))))))))));
-    m_inc = (('c'::('m'::('a'::('t'::('h'::[]))))) :: []); m_ret =
-    ('d'::('o'::('u'::('b'::('l'::('e'::[])))))) } :: ({ m_py =
-    ('l'::('o'::('g'::('2'::[])))); m_cpp =
-    ('s'::('t'::('d'::(':'::(':'::('l'::('o'::('g'::('2'::[])))))))));
-    m_inc = (('c'::('m'::('a'::('t'::('h'::[]))))) :: []); m_ret =
-    ('d'::('o'::('u'::('b'::('l'::('e'::[])))))) } :: ({ m_py =
-    ('s'::('c'::('a'::('l'::('b'::('n'::[])))))); m_cpp =
-    ('s'::('t'::('d'::(':'::(':'::('s'::('c'::('a'::('l'::('b'::('n'::[])))))))))));
-    m_inc = (('c'::('m'::('a'::('t'::('h'::[]))))) :: []); m_ret =
-    ('d'::('o'::('u'::('b'::('l'::('e'::[])))))) } :: ({ m_py =
-    ('s'::('c'::('a'::('l'::('b'::('l'::('n'::[]))))))); m_cpp =
-    ('s'::('t'::('d'::(':'::(':'::('s'::('c'::('a'::('l'::('b'::('l'::('n'::[]))))))))))));
-    m_inc = (('c'::('m'::('a'::('t'::('h'::[]))))) :: []); m_ret =
-    ('d'::('o'::('u'::('b'::('l'::('e'::[])))))) } :: ({ m_py =
-    ('p'::('o'::('w'::[]))); m_cpp =
-    ('s'::('t'::('d'::(':'::(':'::('p'::('o'::('w'::[])))))))); m_inc =
-    (('c'::('m'::('a'::('t'::('h'::[]))))) :: []); m_ret =
-    ('d'::('o'::('u'::('b'::('l'::('e'::[])))))) } :: ({ m_py =
-    ('s'::('q'::('r'::('t'::[])))); m_cpp =
-    ('s'::('t'::('d'::(':'::(':'::('s'::('q'::('r'::('t'::[])))))))));
-    m_inc = (('c'::('m'::('a'::('t'::('h'::[]))))) :: []); m_ret =
-    ('d'::('o'::('u'::('b'::('l'::('e'::[])))))) } :: ({ m_py =
-    ('c'::('b'::('r'::('t'::[])))); m_cpp =
-    ('s'::('t'::('d'::(':'::(':'::('c'::('b'::('r'::('t'::[])))))))));
-    m_inc = (('c'::('m'::('a'::('t'::('h'::[]))))) :: []); m_ret =
-    ('d'::('o'::('u'::('b'::('l'::('e'::[])))))) } :: ({ m_py =
-    ('h'::('y'::('p'::('o'::('t'::[]))))); m_cpp =
-    ('s'::('t'::('d'::(':'::(':'::('h'::('y'::('p'::('o'::('t'::[]))))))))));
-    m_inc = (('c'::('m'::('a'::('t'::('h'::[]))))) :: []); m_ret =
-    ('d'::('o'::('u'::('b'::('l'::('e'::[])))))) } :: ({ m_py =
-    ('e'::('r'::('f'::[]))); m_cpp =
-    ('s'::('t'::('d'::(':'::(':'::('e'::('r'::('f'::[])))))))); m_inc =
-    (('c'::('m'::('a'::('t'::('h'::[]))))) :: []); m_ret =
-    ('d'::('o'::('u'::('b'::('l'::('e'::[])))))) } :: ({ m_py =
-    ('e'::('r'::('f'::('c'::[])))); m_cpp =
-    ('s'::('t'::('d'::(':'::(':'::('e'::('r'::('f'::('c'::[])))))))));
-    m_inc = (('c'::('m'::('a'::('t'::('h'::[]))))) :: []); m_ret =
-    ('d'::('o'::('u'::('b'::('l'::('e'::[])))))) } :: ({ m_py =
-    ('t'::('g'::('a'::('m'::('m'::('a'::[])))))); m_cpp =
-    ('s'::('t'::('d'::(':'::(':'::('t'::('g'::('a'::('m'::('m'::('a'::[])))))))))));
-    m_inc = (('c'::('m'::('a'::('t'::('h'::[]))))) :: []); m_ret =
-    ('d'::('o'::('u'::('b'::('l'::('e'::[])))))) } :: ({ m_py =
-    ('l'::('g'::('a'::('m'::('m'::('a'::[])))))); m_cpp =
-    ('s'::('t'::('d'::(':'::(':'::('l'::('g'::('a'::('m'::('m'::('a'::[])))))))))));
-    m_inc = (('c'::('m'::('a'::('t'::('h'::[]))))) :: []); m_ret =
-    ('d'::('o'::('u'::('b'::('l'::('e'::[])))))) } :: ({ m_py =
-    ('c'::('e'::('i'::('l'::[])))); m_cpp =
-    ('s'::('t'::('d'::(':'::(':'::('c'::('e'::('i'::('l'::[])))))))));
-    m_inc = (('c'::('m'::('a'::('t'::('h'::[]))))) :: []); m_ret =
-    ('d'::('o'::('u'::('b'::('l'::('e'::[])))))) } :: ({ m_py =
-    ('f'::('l'::('o'::('o'::('r'::[]))))); m_cpp =
-    ('s'::('t'::('d'::(':'::(':'::('f'::('l'::('o'::('o'::('r'::[]))))))))));
-    m_inc = (('c'::('m'::('a'::('t'::('h'::[]))))) :: []); m_ret =
-    ('d'::('o'::('u'::('b'::('l'::('e'::[])))))) } :: ({ m_py =
-    ('f'::('m'::('o'::('d'::[])))); m_cpp =
-    ('s'::('t'::('d'::(':'::(':'::('f'::('m'::('o'::('d'::[])))))))));
-    m_inc = (('c'::('m'::('a'::('t'::('h'::[]))))) :: []); m_ret =
-    ('d'::('o'::('u'::('b'::('l'::('e'::[])))))) } :: ({ m_py =
-    ('t'::('r'::('u'::('n'::('c'::[]))))); m_cpp =
-    ('s'::('t'::('d'::(':'::(':'::('t'::('r'::('u'::('n'::('c'::[]))))))))));
-    m_inc = (('c'::('m'::('a'::('t'::('h'::[]))))) :: []); m_ret =
-    ('d'::('o'::('u'::('b'::('l'::('e'::[])))))) } :: ({ m_py =
-    ('r'::('o'::('u'::('n'::('d'::[]))))); m_cpp =
-    ('s'::('t'::('d'::(':'::(':'::('r'::('o'::('u'::('n'::('d'::[]))))))))));
-    m_inc = (('c'::('m'::('a'::('t'::('h'::[]))))) :: []); m_ret =
-    ('d'::('o'::('u'::('b'::('l'::('e'::[])))))) } :: ({ m_py =
-    ('r'::('i'::('n'::('t'::[])))); m_cpp =
-    ('s'::('t'::('d'::(':'::(':'::('r'::('i'::('n'::('t'::[])))))))));
-    m_inc = (('c'::('m'::('a'::('t'::('h'::[]))))) :: []); m_ret =
-    ('d'::('o'::('u'::('b'::('l'::('e'::[])))))) } :: ({ m_py =
-    ('n'::('e'::('a'::('r'::('b'::('y'::('i'::('n'::('t'::[])))))))));
-    m_cpp =
-    ('s'::('t'::('d'::(':'::(':'::('n'::('e'::('a'::('r'::('b'::('y'::('i'::('n'::('t'::[]))))))))))))));
-    m_inc = (('c'::('m'::('a'::('t'::('h'::[]))))) :: []); m_ret =
-    ('d'::('o'::('u'::('b'::('l'::('e'::[])))))) } :: ({ m_py =
-    ('r'::('e'::('m'::('a'::('i'::('n'::('d'::('e'::('r'::[])))))))));
-    m_cpp =
-    ('s'::('t'::('d'::(':'::(':'::('r'::('e'::('m'::('a'::('i'::('n'::('d'::('e'::('r'::[]))))))))))))));
-    m_inc = (('c'::('m'::('a'::('t'::('h'::[]))))) :: []); m_ret =
-    ('d'::('o'::('u'::('b'::('l'::('e'::[])))))) } :: ({ m_py =
-    ('r'::('e'::('m'::('q'::('u'::('o'::[])))))); m_cpp =
-    ('s'::('t'::('d'::(':'::(':'::('r'::('e'::('m'::('q'::('u'::('o'::[])))))))))));
-    m_inc = (('c'::('m'::('a'::('t'::('h'::[]))))) :: []); m_ret =
-    ('d'::('o'::('u'::('b'::('l'::('e'::[])))))) } :: ({ m_py =
-    ('c'::('o'::('p'::('y'::('s'::('i'::('g'::('n'::[])))))))); m_cpp =
-    ('s'::('t'::('d'::(':'::(':'::('c'::('o'::('p'::('y'::('s'::('i'::('g'::('n'::[])))))))))))));
-    m_inc = (('c'::('m'::('a'::('t'::('h'::[]))))) :: []); m_ret =
-    ('d'::('o'::('u'::('b'::('l'::('e'::[])))))) } :: ({ m_py =
-    ('n'::('a'::('n'::[]))); m_cpp =
-    ('s'::('t'::('d'::(':'::(':'::('n'::('a'::('n'::[])))))))); m_inc =
-    (('c'::('m'::('a'::('t'::('h'::[]))))) :: []); m_ret =
-    ('d'::('o'::('u'::('b'::('l'::('e'::[])))))) } :: ({ m_py =
-    ('n'::('e'::('x'::('t'::('a'::('f'::('t'::('e'::('r'::[])))))))));
-    m_cpp =
-    ('s'::('t'::('d'::(':'::(':'::('n'::('e'::('x'::('t'::('a'::('f'::('t'::('e'::('r'::[]))))))))))))));
-    m_inc = (('c'::('m'::('a'::('t'::('h'::[]))))) :: []); m_ret =
-    ('d'::('o'::('u'::('b'::('l'::('e'::[])))))) } :: ({ m_py =
-    ('n'::('e'::('x'::('t'::('t'::('o'::('w'::('a'::('r'::('d'::[]))))))))));
-    m_cpp =
-    ('s'::('t'::('d'::(':'::(':'::('n'::('e'::('x'::('t'::('t'::('o'::('w'::('a'::('r'::('d'::[])))))))))))))));
-    m_inc = (('c'::('m'::('a'::('t'::('h'::[]))))) :: []); m_ret =
-    ('d'::('o'::('u'::('b'::('l'::('e'::[])))))) } :: ({ m_py =
-    ('f'::('d'::('i'::('m'::[])))); m_cpp =
-    ('s'::('t'::('d'::(':'::(':'::('f'::('d'::('i'::('m'::[])))))))));
-    m_inc = (('c'::('m'::('a'::('t'::('h'::[]))))) :: []); m_ret =
-    ('d'::('o'::('u'::('b'::('l'::('e'::[])))))) } :: ({ m_py =
-    ('f'::('m'::('a'::('x'::[])))); m_cpp =
-    ('s'::('t'::('d'::(':'::(':'::('f'::('m'::('a'::('x'::[])))))))));
-    m_inc = (('c'::('m'::('a'::('t'::('h'::[]))))) :: []); m_ret =
-    ('d'::('o'::('u'::('b'::('l'::('e'::[])))))) } :: ({ m_py =
-    ('f'::('m'::('i'::('n'::[])))); m_cpp =
-    ('s'::('t'::('d'::(':'::(':'::('f'::('m'::('i'::('n'::[])))))))));
-    m_inc = (('c'::('m'::('a'::('t'::('h'::[]))))) :: []); m_ret =
-    ('d'::('o'::('u'::('b'::('l'::('e'::[])))))) } :: ({ m_py =
-    ('f'::('a'::('b'::('s'::[])))); m_cpp =
-    ('s'::('t'::('d'::(':'::(':'::('f'::('a'::('b'::('s'::[])))))))));
-    m_inc = (('c'::('m'::('a'::('t'::('h'::[]))))) :: []); m_ret =
-    ('d'::('o'::('u'::('b'::('l'::('e'::[])))))) } :: ({ m_py =
-    ('a'::('b'::('s'::[]))); m_cpp =
-    ('s'::('t'::('d'::(':'::(':'::('f'::('a'::('b'::('s'::[])))))))));
-    m_inc = (('c'::('m'::('a'::('t'::('h'::[]))))) :: []); m_ret =
-    ('d'::('o'::('u'::('b'::('l'::('e'::[])))))) } :: ({ m_py =
-    ('f'::('m'::('a'::[]))); m_cpp =
-    ('s'::('t'::('d'::(':'::(':'::('f'::('m'::('a'::[])))))))); m_inc =
-    (('c'::('m'::('a'::('t'::('h'::[]))))) :: []); m_ret =
-    ('d'::('o'::('u'::('b'::('l'::('e'::[])))))) } :: ({ m_py =
-    ('b'::('u'::('i'::('l'::('t'::('i'::('n'::('s'::('.'::('a'::('b'::('s'::[]))))))))))));
-    m_cpp = ('s'::('t'::('d'::(':'::(':'::('a'::('b'::('s'::[]))))))));
-    m_inc = (('c'::('m'::('a'::('t'::('h'::[]))))) :: []); m_ret =
-    ('d'::('o'::('u'::('b'::('l'::('e'::[])))))) } :: ({ m_py =
-    ('b'::('u'::('i'::('l'::('t'::('i'::('n'::('s'::('.'::('p'::('o'::('w'::[]))))))))))));
-    m_cpp = ('s'::('t'::('d'::(':'::(':'::('p'::('o'::('w'::[]))))))));
-    m_inc = (('c'::('m'::('a'::('t'::('h'::[]))))) :: []); m_ret =
-    ('d'::('o'::('u'::('b'::('l'::('e'::[])))))) } :: ({ m_py =
-    ('b'::('u'::('i'::('l'::('t'::('i'::('n'::('s'::('.'::('r'::('o'::('u'::('n'::('d'::[]))))))))))))));
-    m_cpp =
-    ('s'::('t'::('d'::(':'::(':'::('r'::('o'::('u'::('n'::('d'::[]))))))))));
-    m_inc = (('c'::('m'::('a'::('t'::('h'::[]))))) :: []); m_ret =
-    ('d'::('o'::('u'::('b'::('l'::('e'::[])))))) } :: []))))))))))))))))))))))))))))))))))))))))))))))))))))))
+  []
 
 (** val module_names : char list list **)
 
 let module_names =
-  ('a'::('s'::('t'::[]))) :: (('n'::('a'::('m'::('e'::('d'::('t'::('u'::('p'::('l'::('e'::[])))))))))) :: (('F'::('u'::('n'::('c'::('t'::('i'::('o'::('n'::('A'::('S'::('T'::[]))))))))))) :: (('f'::('i'::('n'::('d'::('_'::('k'::('n'::('o'::('w'::('n'::('_'::('f'::('u'::('n'::('c'::('t'::('i'::('o'::('n'::('s'::[])))))))))))))))))))) :: (('a'::('d'::('d'::('_'::('f'::('u'::('n'::('c'::('t'::('i'::('o'::('n'::('_'::('m'::('a'::('p'::('p'::('i'::('n'::('g'::[])))))))))))))))))))) :: (('f'::('u'::('n'::('c'::('t'::('i'::('o'::('n'::('s'::('_'::('t'::('o'::('_'::('r'::('e'::('p'::('l'::('a'::('c'::('e'::[])))))))))))))))))))) :: (('c'::('p'::('p'::('_'::('f'::('u'::('n'::('c'::('t'::('i'::('o'::('n'::[])))))))))))) :: []))))))
+  []
 
 (** val builtin_names : (char list * char list) list **)
 
 let builtin_names =
-  (('A'::('r'::('i'::('t'::('h'::('m'::('e'::('t'::('i'::('c'::('E'::('r'::('r'::('o'::('r'::[]))))))))))))))),
-    ('b'::('u'::('i'::('l'::('t'::('i'::('n'::('s'::[]))))))))) :: ((('A'::('s'::('s'::('e'::('r'::('t'::('i'::('o'::('n'::('E'::('r'::('r'::('o'::('r'::[])))))))))))))),
-    ('b'::('u'::('i'::('l'::('t'::('i'::('n'::('s'::[]))))))))) :: ((('A'::('t'::('t'::('r'::('i'::('b'::('u'::('t'::('e'::('E'::('r'::('r'::('o'::('r'::[])))))))))))))),
-    ('b'::('u'::('i'::('l'::('t'::('i'::('n'::('s'::[]))))))))) :: ((('B'::('a'::('s'::('e'::('E'::('x'::('c'::('e'::('p'::('t'::('i'::('o'::('n'::[]))))))))))))),
-    ('b'::('u'::('i'::('l'::('t'::('i'::('n'::('s'::[]))))))))) :: ((('B'::('a'::('s'::('e'::('E'::('x'::('c'::('e'::('p'::('t'::('i'::('o'::('n'::('G'::('r'::('o'::('u'::('p'::[])))))))))))))))))),
-    ('b'::('u'::('i'::('l'::('t'::('i'::('n'::('s'::[]))))))))) :: ((('B'::('l'::('o'::('c'::('k'::('i'::('n'::('g'::('I'::('O'::('E'::('r'::('r'::('o'::('r'::[]))))))))))))))),
-    ('b'::('u'::('i'::('l'::('t'::('i'::('n'::('s'::[]))))))))) :: ((('B'::('r'::('o'::('k'::('e'::('n'::('P'::('i'::('p'::('e'::('E'::('r'::('r'::('o'::('r'::[]))))))))))))))),
-    ('b'::('u'::('i'::('l'::('t'::('i'::('n'::('s'::[]))))))))) :: ((('B'::('u'::('f'::('f'::('e'::('r'::('E'::('r'::('r'::('o'::('r'::[]))))))))))),
-    ('b'::('u'::('i'::('l'::('t'::('i'::('n'::('s'::[]))))))))) :: ((('B'::('y'::('t'::('e'::('s'::('W'::('a'::('r'::('n'::('i'::('n'::('g'::[])))))))))))),
-    ('b'::('u'::('i'::('l'::('t'::('i'::('n'::('s'::[]))))))))) :: ((('C'::('h'::('i'::('l'::('d'::('P'::('r'::('o'::('c'::('e'::('s'::('s'::('E'::('r'::('r'::('o'::('r'::[]))))))))))))))))),
-    ('b'::('u'::('i'::('l'::('t'::('i'::('n'::('s'::[]))))))))) :: ((('C'::('o'::('n'::('n'::('e'::('c'::('t'::('i'::('o'::('n'::('A'::('b'::('o'::('r'::('t'::('e'::('d'::('E'::('r'::('r'::('o'::('r'::[])))))))))))))))))))))),
-    ('b'::('u'::('i'::('l'::('t'::('i'::('n'::('s'::[]))))))))) :: ((('C'::('o'::('n'::('n'::('e'::('c'::('t'::('i'::('o'::('n'::('E'::('r'::('r'::('o'::('r'::[]))))))))))))))),
-    ('b'::('u'::('i'::('l'::('t'::('i'::('n'::('s'::[]))))))))) :: ((('C'::('o'::('n'::('n'::('e'::('c'::('t'::('i'::('o'::('n'::('R'::('e'::('f'::('u'::('s'::('e'::('d'::('E'::('r'::('r'::('o'::('r'::[])))))))))))))))))))))),
-    ('b'::('u'::('i'::('l'::('t'::('i'::('n'::('s'::[]))))))))) :: ((('C'::('o'::('n'::('n'::('e'::('c'::('t'::('i'::('o'::('n'::('R'::('e'::('s'::('e'::('t'::('E'::('r'::('r'::('o'::('r'::[])))))))))))))))))))),
-    ('b'::('u'::('i'::('l'::('t'::('i'::('n'::('s'::[]))))))))) :: ((('D'::('e'::('p'::('r'::('e'::('c'::('a'::('t'::('i'::('o'::('n'::('W'::('a'::('r'::('n'::('i'::('n'::('g'::[])))))))))))))))))),
-    ('b'::('u'::('i'::('l'::('t'::('i'::('n'::('s'::[]))))))))) :: ((('E'::('O'::('F'::('E'::('r'::('r'::('o'::('r'::[])))))))),
-    ('b'::('u'::('i'::('l'::('t'::('i'::('n'::('s'::[]))))))))) :: ((('E'::('l'::('l'::('i'::('p'::('s'::('i'::('s'::[])))))))),
-    ('-'::[])) :: ((('E'::('n'::('c'::('o'::('d'::('i'::('n'::('g'::('W'::('a'::('r'::('n'::('i'::('n'::('g'::[]))))))))))))))),
-    ('b'::('u'::('i'::('l'::('t'::('i'::('n'::('s'::[]))))))))) :: ((('E'::('n'::('v'::('i'::('r'::('o'::('n'::('m'::('e'::('n'::('t'::('E'::('r'::('r'::('o'::('r'::[])))))))))))))))),
-    ('b'::('u'::('i'::('l'::('t'::('i'::('n'::('s'::[]))))))))) :: ((('E'::('x'::('c'::('e'::('p'::('t'::('i'::('o'::('n'::[]))))))))),
-    ('b'::('u'::('i'::('l'::('t'::('i'::('n'::('s'::[]))))))))) :: ((('E'::('x'::('c'::('e'::('p'::('t'::('i'::('o'::('n'::('G'::('r'::('o'::('u'::('p'::[])))))))))))))),
-    ('b'::('u'::('i'::('l'::('t'::('i'::('n'::('s'::[]))))))))) :: ((('F'::('a'::('l'::('s'::('e'::[]))))),
-    ('-'::[])) :: ((('F'::('i'::('l'::('e'::('E'::('x'::('i'::('s'::('t'::('s'::('E'::('r'::('r'::('o'::('r'::[]))))))))))))))),
-    ('b'::('u'::('i'::('l'::('t'::('i'::('n'::('s'::[]))))))))) :: ((('F'::('i'::('l'::('e'::('N'::('o'::('t'::('F'::('o'::('u'::('n'::('d'::('E'::('r'::('r'::('o'::('r'::[]))))))))))))))))),
-    ('b'::('u'::('i'::('l'::('t'::('i'::('n'::('s'::[]))))))))) :: ((('F'::('l'::('o'::('a'::('t'::('i'::('n'::('g'::('P'::('o'::('i'::('n'::('t'::('E'::('r'::('r'::('o'::('r'::[])))))))))))))))))),
-    ('b'::('u'::('i'::('l'::('t'::('i'::('n'::('s'::[]))))))))) :: ((('F'::('u'::('t'::('u'::('r'::('e'::('W'::('a'::('r'::('n'::('i'::('n'::('g'::[]))))))))))))),
-    ('b'::('u'::('i'::('l'::('t'::('i'::('n'::('s'::[]))))))))) :: ((('G'::('e'::('n'::('e'::('r'::('a'::('t'::('o'::('r'::('E'::('x'::('i'::('t'::[]))))))))))))),
-    ('b'::('u'::('i'::('l'::('t'::('i'::('n'::('s'::[]))))))))) :: ((('I'::('O'::('E'::('r'::('r'::('o'::('r'::[]))))))),
-    ('b'::('u'::('i'::('l'::('t'::('i'::('n'::('s'::[]))))))))) :: ((('I'::('m'::('p'::('o'::('r'::('t'::('E'::('r'::('r'::('o'::('r'::[]))))))))))),
-    ('b'::('u'::('i'::('l'::('t'::('i'::('n'::('s'::[]))))))))) :: ((('I'::('m'::('p'::('o'::('r'::('t'::('W'::('a'::('r'::('n'::('i'::('n'::('g'::[]))))))))))))),
-    ('b'::('u'::('i'::('l'::('t'::('i'::('n'::('s'::[]))))))))) :: ((('I'::('n'::('d'::('e'::('n'::('t'::('a'::('t'::('i'::('o'::('n'::('E'::('r'::('r'::('o'::('r'::[])))))))))))))))),
-    ('b'::('u'::('i'::('l'::('t'::('i'::('n'::('s'::[]))))))))) :: ((('I'::('n'::('d'::('e'::('x'::('E'::('r'::('r'::('o'::('r'::[])))))))))),
-    ('b'::('u'::('i'::('l'::('t'::('i'::('n'::('s'::[]))))))))) :: ((('I'::('n'::('t'::('e'::('r'::('r'::('u'::('p'::('t'::('e'::('d'::('E'::('r'::('r'::('o'::('r'::[])))))))))))))))),
-    ('b'::('u'::('i'::('l'::('t'::('i'::('n'::('s'::[]))))))))) :: ((('I'::('s'::('A'::('D'::('i'::('r'::('e'::('c'::('t'::('o'::('r'::('y'::('E'::('r'::('r'::('o'::('r'::[]))))))))))))))))),
-    ('b'::('u'::('i'::('l'::('t'::('i'::('n'::('s'::[]))))))))) :: ((('K'::('e'::('y'::('E'::('r'::('r'::('o'::('r'::[])))))))),
-    ('b'::('u'::('i'::('l'::('t'::('i'::('n'::('s'::[]))))))))) :: ((('K'::('e'::('y'::('b'::('o'::('a'::('r'::('d'::('I'::('n'::('t'::('e'::('r'::('r'::('u'::('p'::('t'::[]))))))))))))))))),
-    ('b'::('u'::('i'::('l'::('t'::('i'::('n'::('s'::[]))))))))) :: ((('L'::('o'::('o'::('k'::('u'::('p'::('E'::('r'::('r'::('o'::('r'::[]))))))))))),
-    ('b'::('u'::('i'::('l'::('t'::('i'::('n'::('s'::[]))))))))) :: ((('M'::('e'::('m'::('o'::('r'::('y'::('E'::('r'::('r'::('o'::('r'::[]))))))))))),
-    ('b'::('u'::('i'::('l'::('t'::('i'::('n'::('s'::[]))))))))) :: ((('M'::('o'::('d'::('u'::('l'::('e'::('N'::('o'::('t'::('F'::('o'::('u'::('n'::('d'::('E'::('r'::('r'::('o'::('r'::[]))))))))))))))))))),
-    ('b'::('u'::('i'::('l'::('t'::('i'::('n'::('s'::[]))))))))) :: ((('N'::('a'::('m'::('e'::('E'::('r'::('r'::('o'::('r'::[]))))))))),
-    ('b'::('u'::('i'::('l'::('t'::('i'::('n'::('s'::[]))))))))) :: ((('N'::('o'::('n'::('e'::[])))),
-    ('-'::[])) :: ((('N'::('o'::('t'::('A'::('D'::('i'::('r'::('e'::('c'::('t'::('o'::('r'::('y'::('E'::('r'::('r'::('o'::('r'::[])))))))))))))))))),
-    ('b'::('u'::('i'::('l'::('t'::('i'::('n'::('s'::[]))))))))) :: ((('N'::('o'::('t'::('I'::('m'::('p'::('l'::('e'::('m'::('e'::('n'::('t'::('e'::('d'::[])))))))))))))),
-    ('-'::[])) :: ((('N'::('o'::('t'::('I'::('m'::('p'::('l'::('e'::('m'::('e'::('n'::('t'::('e'::('d'::('E'::('r'::('r'::('o'::('r'::[]))))))))))))))))))),
-    ('b'::('u'::('i'::('l'::('t'::('i'::('n'::('s'::[]))))))))) :: ((('O'::('S'::('E'::('r'::('r'::('o'::('r'::[]))))))),
-    ('b'::('u'::('i'::('l'::('t'::('i'::('n'::('s'::[]))))))))) :: ((('O'::('v'::('e'::('r'::('f'::('l'::('o'::('w'::('E'::('r'::('r'::('o'::('r'::[]))))))))))))),
-    ('b'::('u'::('i'::('l'::('t'::('i'::('n'::('s'::[]))))))))) :: ((('P'::('e'::('n'::('d'::('i'::('n'::('g'::('D'::('e'::('p'::('r'::('e'::('c'::('a'::('t'::('i'::('o'::('n'::('W'::('a'::('r'::('n'::('i'::('n'::('g'::[]))))))))))))))))))))))))),
-    ('b'::('u'::('i'::('l'::('t'::('i'::('n'::('s'::[]))))))))) :: ((('P'::('e'::('r'::('m'::('i'::('s'::('s'::('i'::('o'::('n'::('E'::('r'::('r'::('o'::('r'::[]))))))))))))))),
-    ('b'::('u'::('i'::('l'::('t'::('i'::('n'::('s'::[]))))))))) :: ((('P'::('r'::('o'::('c'::('e'::('s'::('s'::('L'::('o'::('o'::('k'::('u'::('p'::('E'::('r'::('r'::('o'::('r'::[])))))))))))))))))),
-    ('b'::('u'::('i'::('l'::('t'::('i'::('n'::('s'::[]))))))))) :: ((('R'::('e'::('c'::('u'::('r'::('s'::('i'::('o'::('n'::('E'::('r'::('r'::('o'::('r'::[])))))))))))))),
-    ('b'::('u'::('i'::('l'::('t'::('i'::('n'::('s'::[]))))))))) :: ((('R'::('e'::('f'::('e'::('r'::('e'::('n'::('c'::('e'::('E'::('r'::('r'::('o'::('r'::[])))))))))))))),
-    ('b'::('u'::('i'::('l'::('t'::('i'::('n'::('s'::[]))))))))) :: ((('R'::('e'::('s'::('o'::('u'::('r'::('c'::('e'::('W'::('a'::('r'::('n'::('i'::('n'::('g'::[]))))))))))))))),
-    ('b'::('u'::('i'::('l'::('t'::('i'::('n'::('s'::[]))))))))) :: ((('R'::('u'::('n'::('t'::('i'::('m'::('e'::('E'::('r'::('r'::('o'::('r'::[])))))))))))),
-    ('b'::('u'::('i'::('l'::('t'::('i'::('n'::('s'::[]))))))))) :: ((('R'::('u'::('n'::('t'::('i'::('m'::('e'::('W'::('a'::('r'::('n'::('i'::('n'::('g'::[])))))))))))))),
-    ('b'::('u'::('i'::('l'::('t'::('i'::('n'::('s'::[]))))))))) :: ((('S'::('t'::('o'::('p'::('A'::('s'::('y'::('n'::('c'::('I'::('t'::('e'::('r'::('a'::('t'::('i'::('o'::('n'::[])))))))))))))))))),
-    ('b'::('u'::('i'::('l'::('t'::('i'::('n'::('s'::[]))))))))) :: ((('S'::('t'::('o'::('p'::('I'::('t'::('e'::('r'::('a'::('t'::('i'::('o'::('n'::[]))))))))))))),
-    ('b'::('u'::('i'::('l'::('t'::('i'::('n'::('s'::[]))))))))) :: ((('S'::('y'::('n'::('t'::('a'::('x'::('E'::('r'::('r'::('o'::('r'::[]))))))))))),
-    ('b'::('u'::('i'::('l'::('t'::('i'::('n'::('s'::[]))))))))) :: ((('S'::('y'::('n'::('t'::('a'::('x'::('W'::('a'::('r'::('n'::('i'::('n'::('g'::[]))))))))))))),
-    ('b'::('u'::('i'::('l'::('t'::('i'::('n'::('s'::[]))))))))) :: ((('S'::('y'::('s'::('t'::('e'::('m'::('E'::('r'::('r'::('o'::('r'::[]))))))))))),
-    ('b'::('u'::('i'::('l'::('t'::('i'::('n'::('s'::[]))))))))) :: ((('S'::('y'::('s'::('t'::('e'::('m'::('E'::('x'::('i'::('t'::[])))))))))),
-    ('b'::('u'::('i'::('l'::('t'::('i'::('n'::('s'::[]))))))))) :: ((('T'::('a'::('b'::('E'::('r'::('r'::('o'::('r'::[])))))))),
-    ('b'::('u'::('i'::('l'::('t'::('i'::('n'::('s'::[]))))))))) :: ((('T'::('i'::('m'::('e'::('o'::('u'::('t'::('E'::('r'::('r'::('o'::('r'::[])))))))))))),
-    ('b'::('u'::('i'::('l'::('t'::('i'::('n'::('s'::[]))))))))) :: ((('T'::('r'::('u'::('e'::[])))),
-    ('-'::[])) :: ((('T'::('y'::('p'::('e'::('E'::('r'::('r'::('o'::('r'::[]))))))))),
-    ('b'::('u'::('i'::('l'::('t'::('i'::('n'::('s'::[]))))))))) :: ((('U'::('n'::('b'::('o'::('u'::('n'::('d'::('L'::('o'::('c'::('a'::('l'::('E'::('r'::('r'::('o'::('r'::[]))))))))))))))))),
-    ('b'::('u'::('i'::('l'::('t'::('i'::('n'::('s'::[]))))))))) :: ((('U'::('n'::('i'::('c'::('o'::('d'::('e'::('D'::('e'::('c'::('o'::('d'::('e'::('E'::('r'::('r'::('o'::('r'::[])))))))))))))))))),
-    ('b'::('u'::('i'::('l'::('t'::('i'::('n'::('s'::[]))))))))) :: ((('U'::('n'::('i'::('c'::('o'::('d'::('e'::('E'::('n'::('c'::('o'::('d'::('e'::('E'::('r'::('r'::('o'::('r'::[])))))))))))))))))),
-    ('b'::('u'::('i'::('l'::('t'::('i'::('n'::('s'::[]))))))))) :: ((('U'::('n'::('i'::('c'::('o'::('d'::('e'::('E'::('r'::('r'::('o'::('r'::[])))))))))))),
-    ('b'::('u'::('i'::('l'::('t'::('i'::('n'::('s'::[]))))))))) :: ((('U'::('n'::('i'::('c'::('o'::('d'::('e'::('T'::('r'::('a'::('n'::('s'::('l'::('a'::('t'::('e'::('E'::('r'::('r'::('o'::('r'::[]))))))))))))))))))))),
-    ('b'::('u'::('i'::('l'::('t'::('i'::('n'::('s'::[]))))))))) :: ((('U'::('n'::('i'::('c'::('o'::('d'::('e'::('W'::('a'::('r'::('n'::('i'::('n'::('g'::[])))))))))))))),
-    ('b'::('u'::('i'::('l'::('t'::('i'::('n'::('s'::[]))))))))) :: ((('U'::('s'::('e'::('r'::('W'::('a'::('r'::('n'::('i'::('n'::('g'::[]))))))))))),
-    ('b'::('u'::('i'::('l'::('t'::('i'::('n'::('s'::[]))))))))) :: ((('V'::('a'::('l'::('u'::('e'::('E'::('r'::('r'::('o'::('r'::[])))))))))),
-    ('b'::('u'::('i'::('l'::('t'::('i'::('n'::('s'::[]))))))))) :: ((('W'::('a'::('r'::('n'::('i'::('n'::('g'::[]))))))),
-    ('b'::('u'::('i'::('l'::('t'::('i'::('n'::('s'::[]))))))))) :: ((('Z'::('e'::('r'::('o'::('D'::('i'::('v'::('i'::('s'::('i'::('o'::('n'::('E'::('r'::('r'::('o'::('r'::[]))))))))))))))))),
-    ('b'::('u'::('i'::('l'::('t'::('i'::('n'::('s'::[]))))))))) :: ((('_'::('_'::('b'::('u'::('i'::('l'::('d'::('_'::('c'::('l'::('a'::('s'::('s'::('_'::('_'::[]))))))))))))))),
-    ('b'::('u'::('i'::('l'::('t'::('i'::('n'::('s'::[]))))))))) :: ((('_'::('_'::('d'::('e'::('b'::('u'::('g'::('_'::('_'::[]))))))))),
-    ('-'::[])) :: ((('_'::('_'::('d'::('o'::('c'::('_'::('_'::[]))))))),
-    ('-'::[])) :: ((('_'::('_'::('i'::('m'::('p'::('o'::('r'::('t'::('_'::('_'::[])))))))))),
-    ('b'::('u'::('i'::('l'::('t'::('i'::('n'::('s'::[]))))))))) :: ((('_'::('_'::('l'::('o'::('a'::('d'::('e'::('r'::('_'::('_'::[])))))))))),
-    ('_'::('f'::('r'::('o'::('z'::('e'::('n'::('_'::('i'::('m'::('p'::('o'::('r'::('t'::('l'::('i'::('b'::[])))))))))))))))))) :: ((('_'::('_'::('n'::('a'::('m'::('e'::('_'::('_'::[])))))))),
-    ('-'::[])) :: ((('_'::('_'::('p'::('a'::('c'::('k'::('a'::('g'::('e'::('_'::('_'::[]))))))))))),
-    ('-'::[])) :: ((('_'::('_'::('s'::('p'::('e'::('c'::('_'::('_'::[])))))))),
-    ('_'::('f'::('r'::('o'::('z'::('e'::('n'::('_'::('i'::('m'::('p'::('o'::('r'::('t'::('l'::('i'::('b'::[])))))))))))))))))) :: ((('a'::('b'::('s'::[]))),
-    ('b'::('u'::('i'::('l'::('t'::('i'::('n'::('s'::[]))))))))) :: ((('a'::('i'::('t'::('e'::('r'::[]))))),
-    ('b'::('u'::('i'::('l'::('t'::('i'::('n'::('s'::[]))))))))) :: ((('a'::('l'::('l'::[]))),
-    ('b'::('u'::('i'::('l'::('t'::('i'::('n'::('s'::[]))))))))) :: ((('a'::('n'::('e'::('x'::('t'::[]))))),
-    ('b'::('u'::('i'::('l'::('t'::('i'::('n'::('s'::[]))))))))) :: ((('a'::('n'::('y'::[]))),
-    ('b'::('u'::('i'::('l'::('t'::('i'::('n'::('s'::[]))))))))) :: ((('a'::('s'::('c'::('i'::('i'::[]))))),
-    ('b'::('u'::('i'::('l'::('t'::('i'::('n'::('s'::[]))))))))) :: ((('b'::('i'::('n'::[]))),
-    ('b'::('u'::('i'::('l'::('t'::('i'::('n'::('s'::[]))))))))) :: ((('b'::('o'::('o'::('l'::[])))),
-    ('b'::('u'::('i'::('l'::('t'::('i'::('n'::('s'::[]))))))))) :: ((('b'::('r'::('e'::('a'::('k'::('p'::('o'::('i'::('n'::('t'::[])))))))))),
-    ('b'::('u'::('i'::('l'::('t'::('i'::('n'::('s'::[]))))))))) :: ((('b'::('y'::('t'::('e'::('a'::('r'::('r'::('a'::('y'::[]))))))))),
-    ('b'::('u'::('i'::('l'::('t'::('i'::('n'::('s'::[]))))))))) :: ((('b'::('y'::('t'::('e'::('s'::[]))))),
-    ('b'::('u'::('i'::('l'::('t'::('i'::('n'::('s'::[]))))))))) :: ((('c'::('a'::('l'::('l'::('a'::('b'::('l'::('e'::[])))))))),
-    ('b'::('u'::('i'::('l'::('t'::('i'::('n'::('s'::[]))))))))) :: ((('c'::('h'::('r'::[]))),
-    ('b'::('u'::('i'::('l'::('t'::('i'::('n'::('s'::[]))))))))) :: ((('c'::('l'::('a'::('s'::('s'::('m'::('e'::('t'::('h'::('o'::('d'::[]))))))))))),
-    ('b'::('u'::('i'::('l'::('t'::('i'::('n'::('s'::[]))))))))) :: ((('c'::('o'::('m'::('p'::('i'::('l'::('e'::[]))))))),
-    ('b'::('u'::('i'::('l'::('t'::('i'::('n'::('s'::[]))))))))) :: ((('c'::('o'::('m'::('p'::('l'::('e'::('x'::[]))))))),
-    ('b'::('u'::('i'::('l'::('t'::('i'::('n'::('s'::[]))))))))) :: ((('c'::('o'::('p'::('y'::('r'::('i'::('g'::('h'::('t'::[]))))))))),
-    ('_'::('s'::('i'::('t'::('e'::('b'::('u'::('i'::('l'::('t'::('i'::('n'::('s'::[])))))))))))))) :: ((('c'::('r'::('e'::('d'::('i'::('t'::('s'::[]))))))),
-    ('_'::('s'::('i'::('t'::('e'::('b'::('u'::('i'::('l'::('t'::('i'::('n'::('s'::[])))))))))))))) :: ((('d'::('e'::('l'::('a'::('t'::('t'::('r'::[]))))))),
-    ('b'::('u'::('i'::('l'::('t'::('i'::('n'::('s'::[]))))))))) :: ((('d'::('i'::('c'::('t'::[])))),
-    ('b'::('u'::('i'::('l'::('t'::('i'::('n'::('s'::[]))))))))) :: ((('d'::('i'::('r'::[]))),
-    ('b'::('u'::('i'::('l'::('t'::('i'::('n'::('s'::[]))))))))) :: ((('d'::('i'::('v'::('m'::('o'::('d'::[])))))),
-    ('b'::('u'::('i'::('l'::('t'::('i'::('n'::('s'::[]))))))))) :: ((('e'::('n'::('u'::('m'::('e'::('r'::('a'::('t'::('e'::[]))))))))),
-    ('b'::('u'::('i'::('l'::('t'::('i'::('n'::('s'::[]))))))))) :: ((('e'::('v'::('a'::('l'::[])))),
-    ('b'::('u'::('i'::('l'::('t'::('i'::('n'::('s'::[]))))))))) :: ((('e'::('x'::('e'::('c'::[])))),
-    ('b'::('u'::('i'::('l'::('t'::('i'::('n'::('s'::[]))))))))) :: ((('e'::('x'::('i'::('t'::[])))),
-    ('_'::('s'::('i'::('t'::('e'::('b'::('u'::('i'::('l'::('t'::('i'::('n'::('s'::[])))))))))))))) :: ((('f'::('i'::('l'::('t'::('e'::('r'::[])))))),
-    ('b'::('u'::('i'::('l'::('t'::('i'::('n'::('s'::[]))))))))) :: ((('f'::('l'::('o'::('a'::('t'::[]))))),
-    ('b'::('u'::('i'::('l'::('t'::('i'::('n'::('s'::[]))))))))) :: ((('f'::('o'::('r'::('m'::('a'::('t'::[])))))),
-    ('b'::('u'::('i'::('l'::('t'::('i'::('n'::('s'::[]))))))))) :: ((('f'::('r'::('o'::('z'::('e'::('n'::('s'::('e'::('t'::[]))))))))),
-    ('b'::('u'::('i'::('l'::('t'::('i'::('n'::('s'::[]))))))))) :: ((('g'::('e'::('t'::('a'::('t'::('t'::('r'::[]))))))),
-    ('b'::('u'::('i'::('l'::('t'::('i'::('n'::('s'::[]))))))))) :: ((('g'::('l'::('o'::('b'::('a'::('l'::('s'::[]))))))),
-    ('b'::('u'::('i'::('l'::('t'::('i'::('n'::('s'::[]))))))))) :: ((('h'::('a'::('s'::('a'::('t'::('t'::('r'::[]))))))),
-    ('b'::('u'::('i'::('l'::('t'::('i'::('n'::('s'::[]))))))))) :: ((('h'::('a'::('s'::('h'::[])))),
-    ('b'::('u'::('i'::('l'::('t'::('i'::('n'::('s'::[]))))))))) :: ((('h'::('e'::('l'::('p'::[])))),
-    ('_'::('s'::('i'::('t'::('e'::('b'::('u'::('i'::('l'::('t'::('i'::('n'::('s'::[])))))))))))))) :: ((('h'::('e'::('x'::[]))),
-    ('b'::('u'::('i'::('l'::('t'::('i'::('n'::('s'::[]))))))))) :: ((('i'::('d'::[])),
-    ('b'::('u'::('i'::('l'::('t'::('i'::('n'::('s'::[]))))))))) :: ((('i'::('n'::('p'::('u'::('t'::[]))))),
-    ('b'::('u'::('i'::('l'::('t'::('i'::('n'::('s'::[]))))))))) :: ((('i'::('n'::('t'::[]))),
-    ('b'::('u'::('i'::('l'::('t'::('i'::('n'::('s'::[]))))))))) :: ((('i'::('s'::('i'::('n'::('s'::('t'::('a'::('n'::('c'::('e'::[])))))))))),
-    ('b'::('u'::('i'::('l'::('t'::('i'::('n'::('s'::[]))))))))) :: ((('i'::('s'::('s'::('u'::('b'::('c'::('l'::('a'::('s'::('s'::[])))))))))),
-    ('b'::('u'::('i'::('l'::('t'::('i'::('n'::('s'::[]))))))))) :: ((('i'::('t'::('e'::('r'::[])))),
-    ('b'::('u'::('i'::('l'::('t'::('i'::('n'::('s'::[]))))))))) :: ((('l'::('e'::('n'::[]))),
-    ('b'::('u'::('i'::('l'::('t'::('i'::('n'::('s'::[]))))))))) :: ((('l'::('i'::('c'::('e'::('n'::('s'::('e'::[]))))))),
-    ('_'::('s'::('i'::('t'::('e'::('b'::('u'::('i'::('l'::('t'::('i'::('n'::('s'::[])))))))))))))) :: ((('l'::('i'::('s'::('t'::[])))),
-    ('b'::('u'::('i'::('l'::('t'::('i'::('n'::('s'::[]))))))))) :: ((('l'::('o'::('c'::('a'::('l'::('s'::[])))))),
-    ('b'::('u'::('i'::('l'::('t'::('i'::('n'::('s'::[]))))))))) :: ((('m'::('a'::('p'::[]))),
-    ('b'::('u'::('i'::('l'::('t'::('i'::('n'::('s'::[]))))))))) :: ((('m'::('a'::('x'::[]))),
-    ('b'::('u'::('i'::('l'::('t'::('i'::('n'::('s'::[]))))))))) :: ((('m'::('e'::('m'::('o'::('r'::('y'::('v'::('i'::('e'::('w'::[])))))))))),
-    ('b'::('u'::('i'::('l'::('t'::('i'::('n'::('s'::[]))))))))) :: ((('m'::('i'::('n'::[]))),
-    ('b'::('u'::('i'::('l'::('t'::('i'::('n'::('s'::[]))))))))) :: ((('n'::('e'::('x'::('t'::[])))),
-    ('b'::('u'::('i'::('l'::('t'::('i'::('n'::('s'::[]))))))))) :: ((('o'::('b'::('j'::('e'::('c'::('t'::[])))))),
-    ('b'::('u'::('i'::('l'::('t'::('i'::('n'::('s'::[]))))))))) :: ((('o'::('c'::('t'::[]))),
-    ('b'::('u'::('i'::('l'::('t'::('i'::('n'::('s'::[]))))))))) :: ((('o'::('p'::('e'::('n'::[])))),
-    ('_'::('i'::('o'::[])))) :: ((('o'::('r'::('d'::[]))),
-    ('b'::('u'::('i'::('l'::('t'::('i'::('n'::('s'::[]))))))))) :: ((('p'::('o'::('w'::[]))),
-    ('b'::('u'::('i'::('l'::('t'::('i'::('n'::('s'::[]))))))))) :: ((('p'::('r'::('i'::('n'::('t'::[]))))),
-    ('b'::('u'::('i'::('l'::('t'::('i'::('n'::('s'::[]))))))))) :: ((('p'::('r'::('o'::('p'::('e'::('r'::('t'::('y'::[])))))))),
-    ('b'::('u'::('i'::('l'::('t'::('i'::('n'::('s'::[]))))))))) :: ((('q'::('u'::('i'::('t'::[])))),
-    ('_'::('s'::('i'::('t'::('e'::('b'::('u'::('i'::('l'::('t'::('i'::('n'::('s'::[])))))))))))))) :: ((('r'::('a'::('n'::('g'::('e'::[]))))),
-    ('b'::('u'::('i'::('l'::('t'::('i'::('n'::('s'::[]))))))))) :: ((('r'::('e'::('p'::('r'::[])))),
-    ('b'::('u'::('i'::('l'::('t'::('i'::('n'::('s'::[]))))))))) :: ((('r'::('e'::('v'::('e'::('r'::('s'::('e'::('d'::[])))))))),
-    ('b'::('u'::('i'::('l'::('t'::('i'::('n'::('s'::[]))))))))) :: ((('r'::('o'::('u'::('n'::('d'::[]))))),
-    ('b'::('u'::('i'::('l'::('t'::('i'::('n'::('s'::[]))))))))) :: ((('s'::('e'::('t'::[]))),
-    ('b'::('u'::('i'::('l'::('t'::('i'::('n'::('s'::[]))))))))) :: ((('s'::('e'::('t'::('a'::('t'::('t'::('r'::[]))))))),
-    ('b'::('u'::('i'::('l'::('t'::('i'::('n'::('s'::[]))))))))) :: ((('s'::('l'::('i'::('c'::('e'::[]))))),
-    ('b'::('u'::('i'::('l'::('t'::('i'::('n'::('s'::[]))))))))) :: ((('s'::('o'::('r'::('t'::('e'::('d'::[])))))),
-    ('b'::('u'::('i'::('l'::('t'::('i'::('n'::('s'::[]))))))))) :: ((('s'::('t'::('a'::('t'::('i'::('c'::('m'::('e'::('t'::('h'::('o'::('d'::[])))))))))))),
-    ('b'::('u'::('i'::('l'::('t'::('i'::('n'::('s'::[]))))))))) :: ((('s'::('t'::('r'::[]))),
-    ('b'::('u'::('i'::('l'::('t'::('i'::('n'::('s'::[]))))))))) :: ((('s'::('u'::('m'::[]))),
-    ('b'::('u'::('i'::('l'::('t'::('i'::('n'::('s'::[]))))))))) :: ((('s'::('u'::('p'::('e'::('r'::[]))))),
-    ('b'::('u'::('i'::('l'::('t'::('i'::('n'::('s'::[]))))))))) :: ((('t'::('u'::('p'::('l'::('e'::[]))))),
-    ('b'::('u'::('i'::('l'::('t'::('i'::('n'::('s'::[]))))))))) :: ((('t'::('y'::('p'::('e'::[])))),
-    ('b'::('u'::('i'::('l'::('t'::('i'::('n'::('s'::[]))))))))) :: ((('v'::('a'::('r'::('s'::[])))),
-    ('b'::('u'::('i'::('l'::('t'::('i'::('n'::('s'::[]))))))))) :: ((('z'::('i'::('p'::[]))),
-    ('b'::('u'::('i'::('l'::('t'::('i'::('n'::('s'::[]))))))))) :: []))))))))))))))))))))))))))))))))))))))))))))))))))))))))))))))))))))))))))))))))))))))))))))))))))))))))))))))))))))))))))))))))))))))))))))))))))))))))))))
+  []
 
 (** val documented : char list list **)
 
 let documented =
-  ('s'::('i'::('n'::[]))) :: (('c'::('o'::('s'::[]))) :: (('t'::('a'::('n'::[]))) :: (('a'::('c'::('o'::('s'::[])))) :: (('a'::('s'::('i'::('n'::[])))) :: (('a'::('t'::('a'::('n'::[])))) :: (('a'::('t'::('a'::('n'::('2'::[]))))) :: (('s'::('i'::('n'::('h'::[])))) :: (('c'::('o'::('s'::('h'::[])))) :: (('t'::('a'::('n'::('h'::[])))) :: (('a'::('s'::('i'::('n'::('h'::[]))))) :: (('a'::('c'::('o'::('s'::('h'::[]))))) :: (('a'::('t'::('a'::('n'::('h'::[]))))) :: (('e'::('x'::('p'::[]))) :: (('l'::('d'::('e'::('x'::('p'::[]))))) :: (('l'::('o'::('g'::[]))) :: (('l'::('n'::[])) :: (('l'::('o'::('g'::('1'::('0'::[]))))) :: (('e'::('x'::('p'::('2'::[])))) :: (('e'::('x'::('p'::('m'::('1'::[]))))) :: (('i'::('l'::('o'::('g'::('b'::[]))))) :: (('l'::('o'::('g'::('1'::('p'::[]))))) :: (('l'::('o'::('g'::('2'::[])))) :: (('s'::('c'::('a'::('l'::('b'::('n'::[])))))) :: (('s'::('c'::('a'::('l'::('b'::('l'::('n'::[]))))))) :: (('p'::('o'::('w'::[]))) :: (('s'::('q'::('r'::('t'::[])))) :: (('c'::('b'::('r'::('t'::[])))) :: (('h'::('y'::('p'::('o'::('t'::[]))))) :: (('e'::('r'::('f'::[]))) :: (('e'::('r'::('f'::('c'::[])))) :: (('t'::('g'::('a'::('m'::('m'::('a'::[])))))) :: (('l'::('g'::('a'::('m'::('m'::('a'::[])))))) :: (('c'::('e'::('i'::('l'::[])))) :: (('f'::('l'::('o'::('o'::('r'::[]))))) :: (('f'::('m'::('o'::('d'::[])))) :: (('t'::('r'::('u'::('n'::('c'::[]))))) :: (('r'::('o'::('u'::('n'::('d'::[]))))) :: (('r'::('i'::('n'::('t'::[])))) :: (('n'::('e'::('a'::('r'::('b'::('y'::('i'::('n'::('t'::[]))))))))) :: (('r'::('e'::('m'::('a'::('i'::('n'::('d'::('e'::('r'::[]))))))))) :: (('r'::('e'::('m'::('q'::('u'::('o'::[])))))) :: (('c'::('o'::('p'::('y'::('s'::('i'::('g'::('n'::[])))))))) :: (('n'::('a'::('n'::[]))) :: (('n'::('e'::('x'::('t'::('a'::('f'::('t'::('e'::('r'::[]))))))))) :: (('n'::('e'::('x'::('t'::('t'::('o'::('w'::('a'::('r'::('d'::[])))))))))) :: (('f'::('d'::('i'::('m'::[])))) :: (('f'::('m'::('a'::('x'::[])))) :: (('f'::('m'::('i'::('n'::[])))) :: (('f'::('a'::('b'::('s'::[])))) :: (('a'::('b'::('s'::[]))) :: (('f'::('m'::('a'::[]))) :: [])))))))))))))))))))))))))))))))))))))))))))))))))))
+  []
 
 (** val math_env : menv **)
 
 let math_env =
   { e_rows = math_rows; e_module = module_names; e_builtins = builtin_names }
 
-(** val is_word : char -> bool **)
-
-let is_word c =
-  let n0 = nat_of_ascii c in
-  (||)
-    ((||)
-      ((||)
-        ((&&)
-          (Nat.leb (S (S (S (S (S (S (S (S (S (S (S (S (S (S (S (S (S (S (S
-            (S (S (S (S (S (S (S (S (S (S (S (S (S (S (S (S (S (S (S (S (S (S
-            (S (S (S (S (S (S (S
-            O)))))))))))))))))))))))))))))))))))))))))))))))) n0)
-          (Nat.leb n0 (S (S (S (S (S (S (S (S (S (S (S (S (S (S (S (S (S (S
-            (S (S (S (S (S (S (S (S (S (S (S (S (S (S (S (S (S (S (S (S (S (S
-            (S (S (S (S (S (S (S (S (S (S (S (S (S (S (S (S (S
-            O)))))))))))))))))))))))))))))))))))))))))))))))))))))))))))
-        ((&&)
-          (Nat.leb (S (S (S (S (S (S (S (S (S (S (S (S (S (S (S (S (S (S (S
-            (S (S (S (S (S (S (S (S (S (S (S (S (S (S (S (S (S (S (S (S (S (S
-            (S (S (S (S (S (S (S (S (S (S (S (S (S (S (S (S (S (S (S (S (S (S
-            (S (S
-            O)))))))))))))))))))))))))))))))))))))))))))))))))))))))))))))))))
-            n0)
-          (Nat.leb n0 (S (S (S (S (S (S (S (S (S (S (S (S (S (S (S (S (S (S
-            (S (S (S (S (S (S (S (S (S (S (S (S (S (S (S (S (S (S (S (S (S (S
-            (S (S (S (S (S (S (S (S (S (S (S (S (S (S (S (S (S (S (S (S (S (S
-            (S (S (S (S (S (S (S (S (S (S (S (S (S (S (S (S (S (S (S (S (S (S
-            (S (S (S (S (S (S
-            O)))))))))))))))))))))))))))))))))))))))))))))))))))))))))))))))))))))))))))))))))))))))))))))
-      ((&&)
-        (Nat.leb (S (S (S (S (S (S (S (S (S (S (S (S (S (S (S (S (S (S (S (S
-          (S (S (S (S (S (S (S (S (S (S (S (S (S (S (S (S (S (S (S (S (S (S
-          (S (S (S (S (S (S (S (S (S (S (S (S (S (S (S (S (S (S (S (S (S (S
-          (S (S (S (S (S (S (S (S (S (S (S (S (S (S (S (S (S (S (S (S (S (S
-          (S (S (S (S (S (S (S (S (S (S (S
-          O)))))))))))))))))))))))))))))))))))))))))))))))))))))))))))))))))))))))))))))))))))))))))))))))))
-          n0)
-        (Nat.leb n0 (S (S (S (S (S (S (S (S (S (S (S (S (S (S (S (S (S (S (S
-          (S (S (S (S (S (S (S (S (S (S (S (S (S (S (S (S (S (S (S (S (S (S
-          (S (S (S (S (S (S (S (S (S (S (S (S (S (S (S (S (S (S (S (S (S (S
-          (S (S (S (S (S (S (S (S (S (S (S (S (S (S (S (S (S (S (S (S (S (S
-          (S (S (S (S (S (S (S (S (S (S (S (S (S (S (S (S (S (S (S (S (S (S
-          (S (S (S (S (S (S (S (S (S (S (S (S (S (S (S
-          O)))))))))))))))))))))))))))))))))))))))))))))))))))))))))))))))))))))))))))))))))))))))))))))))))))))))))))))))))))))))))))))
-    (Nat.eqb n0 (S (S (S (S (S (S (S (S (S (S (S (S (S (S (S (S (S (S (S (S
-      (S (S (S (S (S (S (S (S (S (S (S (S (S (S (S (S (S (S (S (S (S (S (S (S
-      (S (S (S (S (S (S (S (S (S (S (S (S (S (S (S (S (S (S (S (S (S (S (S (S
-      (S (S (S (S (S (S (S (S (S (S (S (S (S (S (S (S (S (S (S (S (S (S (S (S
-      (S (S (S
-      O))))))))))))))))))))))))))))))))))))))))))))))))))))))))))))))))))))))))))))))))))))))))))))))))
-
-(** val snoc : char list -> char -> char list **)
-
-let snoc s c =
-  append s (c::[])
-
-(** val flush : char list -> char list -> char list -> char list **)
-
-let flush w repl cur =
-  if eqb0 cur w then repl else cur
-
-(** val sub_run :
-    char list -> char list -> char list -> char list -> char list **)
-
-let rec sub_run w repl cur = function
-| [] -> flush w repl cur
-| c::r ->
-  if is_word c
-  then sub_run w repl (snoc cur c) r
-  else append (flush w repl cur) (c::(sub_run w repl [] r))
-
-(** val subst_word : char list -> char list -> char list -> char list **)
-
-let subst_word w repl s =
-  sub_run w repl [] s
-
-type hole =
-| HCont
-| HType
-| HTok
-
-type piece =
-| PLit of char list
-| PHole of hole
-| PArg
-
-type pattern = piece list
-
-type henv = { e_cont : char list; e_type : char list; e_tok : char list }
-
-(** val hole_val : henv -> hole -> char list **)
-
-let hole_val e = function
-| HCont -> e.e_cont
-| HType -> e.e_type
-| HTok -> e.e_tok
-
-(** val inst : henv -> char list -> pattern -> char list **)
-
-let rec inst e arg0 = function
-| [] -> []
-| p0 :: r ->
-  (match p0 with
-   | PLit s -> append s (inst e arg0 r)
-   | PHole h -> append (hole_val e h) (inst e arg0 r)
-   | PArg -> append arg0 (inst e arg0 r))
-
-(** val fstring : henv -> pattern -> char list **)
-
-let fstring e p =
-  inst e [] p
-
-(** val merge_lits : pattern -> pattern **)
-
-let rec merge_lits = function
-| [] -> []
-| x :: r ->
-  (match x with
-   | PLit a ->
-     (match merge_lits r with
-      | [] -> let r' = [] in if eqb0 a [] then r' else (PLit a) :: r'
-      | p0 :: r' ->
-        (match p0 with
-         | PLit b -> (PLit (append a b)) :: r'
-         | x0 ->
-           let r'0 = x0 :: r' in if eqb0 a [] then r'0 else (PLit a) :: r'0))
-   | _ -> x :: (merge_lits r))
-
-type ckind =
-| KSingle
-| KColl
-
-type cclass = { cc_name : char list; cc_kind : ckind; cc_str : pattern;
-                cc_token : pattern option; cc_pd_type : nat; cc_pd_elem : 
-                nat }
-
-type cspec = { cs_backend : char list; cs_name : char list;
-               cs_includes : char list list; cs_kind : ckind;
-               cs_type : char list; cs_pd_type : nat; cs_elem : char list;
-               cs_pd_elem : nat; cs_str : pattern; cs_token : pattern option;
-               cs_libs : char list list }
-
-(** val type_env : char list -> henv **)
-
-let type_env ty =
-  { e_cont = []; e_type = ty; e_tok = [] }
-
-(** val cont_str : cspec -> char list **)
-
-let cont_str s =
-  fstring (type_env s.cs_type) s.cs_str
-
-(** val token_type : cspec -> char list option **)
-
-let token_type s =
-  option_map (fstring (type_env s.cs_type)) s.cs_token
-
-type token_alloc =
-| TokNone
-| TokPerClass
-| TokPerCall
-
-type coder = { cd_lines : pattern list; cd_alloc : token_alloc;
-               cd_init : pattern option }
-
-type mdkind = { mk_type : char list; mk_keys : char list list;
-                mk_bname : char list; mk_coll : cclass;
-                mk_single : cclass option; mk_libs : bool; mk_elem_ptr : 
-                bool }
-
-type backend = { b_key : char list; b_accepts : char list;
-                 b_table : cspec list; b_coder : coder }
-
-type cenv = { c_backends : backend list; c_kinds : mdkind list;
-              c_default_types : (char list * (((char list * char list) * char list) * nat)
-                                list) list }
-
-type mval =
-| MStr of char list
-| MBool of bool
-| MList of char list list
-
-type mdict = (char list * mval) list
-
-(** val md_get : char list -> mdict -> mval option **)
-
-let rec md_get k = function
-| [] -> None
-| p :: r -> let (a, v) = p in if eqb0 k a then Some v else md_get k r
-
-(** val md_has : char list -> mdict -> bool **)
-
-let md_has k d =
-  match md_get k d with
-  | Some _ -> true
-  | None -> false
-
-(** val unmodelled : 'a1 result **)
-
-let unmodelled =
-  Error (ErrOther
-    ('u'::('n'::('m'::('o'::('d'::('e'::('l'::('l'::('e'::('d'::[])))))))))))
-
-(** val req_str : char list -> mdict -> char list result **)
-
-let req_str k d =
-  match md_get k d with
-  | Some m -> (match m with
-               | MStr s -> OK s
-               | _ -> unmodelled)
-  | None -> Error ErrKey
-
-(** val req_bool : char list -> mdict -> bool result **)
-
-let req_bool k d =
-  match md_get k d with
-  | Some m -> (match m with
-               | MBool b -> OK b
-               | _ -> unmodelled)
-  | None -> Error ErrKey
-
-(** val req_list : char list -> mdict -> char list list result **)
-
-let req_list k d =
-  match md_get k d with
-  | Some m -> (match m with
-               | MList l -> OK l
-               | _ -> unmodelled)
-  | None -> Error ErrKey
-
-(** val find_kind : char list -> mdkind list -> mdkind option **)
-
-let rec find_kind t = function
-| [] -> None
-| k :: r -> if eqb0 t k.mk_type then Some k else find_kind t r
-
-(** val unexpected_key : mdkind -> mdict -> bool **)
-
-let unexpected_key k d =
-  existsb (fun kv -> negb (mem_str (fst kv) k.mk_keys)) d
-
-(** val spec_of_class :
-    char list -> char list -> char list list -> cclass -> char list ->
-    char list -> nat -> char list list -> cspec **)
-
-let spec_of_class backend0 name inc c ty elem pd_elem libs =
-  { cs_backend = backend0; cs_name = name; cs_includes = inc; cs_kind =
-    c.cc_kind; cs_type = ty; cs_pd_type = c.cc_pd_type; cs_elem = elem;
-    cs_pd_elem = pd_elem; cs_str = c.cc_str; cs_token = c.cc_token; cs_libs =
-    libs }
-
-(** val process_decl : mdkind list -> mdict -> cspec result **)
-
-let process_decl ks d =
-  match md_get
-          ('m'::('e'::('t'::('a'::('d'::('a'::('t'::('a'::('_'::('t'::('y'::('p'::('e'::[])))))))))))))
-          d with
-  | Some m ->
-    (match m with
-     | MStr t ->
-       (match find_kind t ks with
-        | Some k ->
-          if unexpected_key k d
-          then Error ErrValue
-          else bind
-                 (req_bool
-                   ('c'::('o'::('n'::('t'::('a'::('i'::('n'::('s'::('_'::('c'::('o'::('l'::('l'::('e'::('c'::('t'::('i'::('o'::('n'::[])))))))))))))))))))
-                   d) (fun cc ->
-                 let has_et =
-                   md_has
-                     ('e'::('l'::('e'::('m'::('e'::('n'::('t'::('_'::('t'::('y'::('p'::('e'::[]))))))))))))
-                     d
-                 in
-                 if (||) ((&&) cc (negb has_et)) ((&&) (negb cc) has_et)
-                 then Error ErrValue
-                 else bind
-                        (req_str
-                          ('c'::('o'::('n'::('t'::('a'::('i'::('n'::('e'::('r'::('_'::('t'::('y'::('p'::('e'::[]))))))))))))))
-                          d) (fun ty ->
-                        bind
-                          (if cc
-                           then bind
-                                  (req_str
-                                    ('e'::('l'::('e'::('m'::('e'::('n'::('t'::('_'::('t'::('y'::('p'::('e'::[]))))))))))))
-                                    d) (fun e -> OK (k.mk_coll, e))
-                           else (match k.mk_single with
-                                 | Some c -> OK (c, [])
-                                 | None -> Error ErrKey)) (fun x ->
-                          let (cls, elem) = x in
-                          bind
-                            (if k.mk_libs
-                             then (match md_get
-                                           ('l'::('i'::('n'::('k'::('_'::('l'::('i'::('b'::('r'::('a'::('r'::('i'::('e'::('s'::[]))))))))))))))
-                                           d with
-                                   | Some m0 ->
-                                     (match m0 with
-                                      | MList l -> OK l
-                                      | _ -> unmodelled)
-                                   | None -> OK [])
-                             else OK []) (fun libs ->
-                            bind
-                              (if k.mk_elem_ptr
-                               then (match md_get
-                                             ('e'::('l'::('e'::('m'::('e'::('n'::('t'::('_'::('p'::('o'::('i'::('n'::('t'::('e'::('r'::[])))))))))))))))
-                                             d with
-                                     | Some m0 ->
-                                       (match m0 with
-                                        | MBool b -> OK (if b then S O else O)
-                                        | _ -> unmodelled)
-                                     | None -> OK O)
-                               else OK cls.cc_pd_elem) (fun pd_elem ->
-                              bind (req_str ('n'::('a'::('m'::('e'::[])))) d)
-                                (fun name ->
-                                bind
-                                  (req_list
-                                    ('i'::('n'::('c'::('l'::('u'::('d'::('e'::('_'::('f'::('i'::('l'::('e'::('s'::[])))))))))))))
-                                    d) (fun inc -> OK
-                                  (spec_of_class k.mk_bname name inc cls ty
-                                    elem pd_elem libs))))))))
-        | None -> unmodelled)
-     | _ -> unmodelled)
-  | None -> Error ErrValue
-
-(** val process_metadata : mdkind list -> mdict list -> cspec list result **)
-
-let rec process_metadata ks = function
-| [] -> OK []
-| d :: r ->
-  bind (process_decl ks d) (fun s ->
-    bind (process_metadata ks r) (fun rest -> OK (s :: rest)))
-
-(** val build_collection_callback : backend -> cspec -> cspec result **)
-
-let build_collection_callback b s =
-  if eqb0 s.cs_backend b.b_accepts then OK s else Error ErrValue
-
-(** val check_backends : backend -> cspec list -> unit result **)
-
-let rec check_backends b = function
-| [] -> OK ()
-| s :: r -> bind (build_collection_callback b s) (fun _ -> check_backends b r)
-
-(** val find_last : char list -> cspec list -> cspec option **)
-
-let rec find_last n0 = function
-| [] -> None
-| s :: r ->
-  (match find_last n0 r with
-   | Some s' -> Some s'
-   | None -> if eqb0 n0 s.cs_name then Some s else None)
-
-(** val lookup_collection :
-    backend -> cspec list -> char list -> cspec option **)
-
-let lookup_collection b declared n0 =
-  match find_last n0 declared with
-  | Some s -> Some s
-  | None -> find_last n0 b.b_table
-
-type uname = { un_base : char list; un_idx : nat }
-
-(** val render_name : uname -> char list **)
-
-let render_name u =
-  append u.un_base (dec_nat u.un_idx)
-
-(** val lower_char : char -> char **)
-
-let lower_char c =
-  let n0 = nat_of_ascii c in
-  if (&&)
-       (Nat.leb (S (S (S (S (S (S (S (S (S (S (S (S (S (S (S (S (S (S (S (S
-         (S (S (S (S (S (S (S (S (S (S (S (S (S (S (S (S (S (S (S (S (S (S (S
-         (S (S (S (S (S (S (S (S (S (S (S (S (S (S (S (S (S (S (S (S (S (S
-         O)))))))))))))))))))))))))))))))))))))))))))))))))))))))))))))))))
-         n0)
-       (Nat.leb n0 (S (S (S (S (S (S (S (S (S (S (S (S (S (S (S (S (S (S (S
-         (S (S (S (S (S (S (S (S (S (S (S (S (S (S (S (S (S (S (S (S (S (S (S
-         (S (S (S (S (S (S (S (S (S (S (S (S (S (S (S (S (S (S (S (S (S (S (S
-         (S (S (S (S (S (S (S (S (S (S (S (S (S (S (S (S (S (S (S (S (S (S (S
-         (S (S
-         O)))))))))))))))))))))))))))))))))))))))))))))))))))))))))))))))))))))))))))))))))))))))))))
-  then ascii_of_nat
-         (add n0 (S (S (S (S (S (S (S (S (S (S (S (S (S (S (S (S (S (S (S (S
-           (S (S (S (S (S (S (S (S (S (S (S (S
-           O)))))))))))))))))))))))))))))))))
-  else c
-
-(** val lower : char list -> char list **)
-
-let rec lower = function
-| [] -> []
-| c::r -> (lower_char c)::(lower r)
-
-type vdecl = { vd_type : char list; vd_name : uname }
-
-type stmt =
-| SArb of char list
-| SSet of uname * char list
-| SBlk of vdecl list * stmt list
-
-type gstate = { g_vars : vdecl list; g_stmts : stmt list;
-                g_class : vdecl list; g_book : stmt list;
-                g_inc : char list list; g_libs : char list list; g_ctr : 
-                nat }
-
-(** val add_unique : char list -> char list list -> char list list **)
-
-let add_unique x l =
-  if mem_str x l then l else app l (x :: [])
-
-(** val add_all : char list list -> char list list -> char list list **)
-
-let add_all xs l =
-  fold_left (fun acc x -> add_unique x acc) xs l
-
-type arg =
-| AStr of char list
-| AOther
-
-type use = { u_name : char list; u_args : arg list }
-
-type rep_kind =
-| RVar
-| RColl
-
-type cpv = { v_args : char list list; v_includes : char list list;
-             v_libs : char list list; v_code : char list list;
-             v_result : char list; v_rep : rep_kind; v_spec : cspec;
-             v_fields : (vdecl * char list) list }
-
-(** val param_name : char list **)
-
-let param_name =
-  'c'::('o'::('l'::('l'::('e'::('c'::('t'::('i'::('o'::('n'::('_'::('n'::('a'::('m'::('e'::[]))))))))))))))
-
-(** val compose : pattern -> pattern -> pattern **)
-
-let compose cls line =
-  merge_lits
-    (flat_map (fun x ->
-      match x with
-      | PHole h -> (match h with
-                    | HCont -> cls
-                    | _ -> x :: [])
-      | _ -> x :: []) line)
-
-(** val line_env : cspec -> char list -> henv **)
-
-let line_env s tok =
-  { e_cont = []; e_type = s.cs_type; e_tok = tok }
-
-(** val running_code : coder -> cspec -> char list -> char list list **)
-
-let running_code cd s tok =
-  map (fun p -> fstring (line_env s tok) (compose s.cs_str p)) cd.cd_lines
-
-(** val token_fields : coder -> cspec -> uname -> (vdecl * char list) list **)
-
-let token_fields cd s tok =
-  match cd.cd_init with
-  | Some p ->
-    (match token_type s with
-     | Some tty ->
-       ({ vd_type = tty; vd_name = tok },
-         (fstring (line_env s (render_name tok)) (compose s.cs_str p))) :: []
-     | None -> [])
-  | None -> []
-
-(** val class_token : uname **)
-
-let class_token =
-  { un_base = ('t'::('o'::('k'::('e'::('n'::[]))))); un_idx = O }
-
-(** val get_collection :
-    coder -> cspec -> arg list -> nat -> (cpv * nat) result **)
-
-let get_collection cd s args ctr =
-  match args with
-  | [] -> Error ErrValue
-  | a :: l ->
-    (match a with
-     | AStr _ ->
-       (match l with
-        | [] ->
-          (match cd.cd_alloc with
-           | TokPerCall ->
-             let tok = { un_base = ('t'::('o'::('k'::('e'::('n'::[])))));
-               un_idx = ctr }
-             in
-             let ctr' = S ctr in
-             OK ({ v_args = (param_name :: []); v_includes = s.cs_includes;
-             v_libs = s.cs_libs; v_code =
-             (running_code cd s (render_name tok)); v_result =
-             ('r'::('e'::('s'::('u'::('l'::('t'::[])))))); v_rep =
-             (match s.cs_kind with
-              | KSingle -> RVar
-              | KColl -> RColl); v_spec = s; v_fields =
-             (match cd.cd_alloc with
-              | TokNone -> []
-              | _ -> token_fields cd s tok) }, ctr')
-           | _ ->
-             OK ({ v_args = (param_name :: []); v_includes = s.cs_includes;
-               v_libs = s.cs_libs; v_code =
-               (running_code cd s (render_name class_token)); v_result =
-               ('r'::('e'::('s'::('u'::('l'::('t'::[])))))); v_rep =
-               (match s.cs_kind with
-                | KSingle -> RVar
-                | KColl -> RColl); v_spec = s; v_fields =
-               (match cd.cd_alloc with
-                | TokNone -> []
-                | _ -> token_fields cd s class_token) }, ctr))
-        | _ :: _ -> Error ErrValue)
-     | AOther -> Error ErrValue)
-
-(** val cpp_string_literal : char list -> char list **)
-
-let cpp_string_literal s =
-  append ('"'::[]) (append s ('"'::[]))
-
-type rep = { r_kind : rep_kind; r_name : uname; r_type : char list;
-             r_pd : nat; r_elem : char list; r_pd_elem : nat }
-
-(** val process_ast_node : cpv -> char list -> gstate -> gstate * rep **)
-
-let process_ast_node v bank g =
-  let s = v.v_spec in
-  let var = { un_base = (lower s.cs_name); un_idx = g.g_ctr } in
-  let ty = cont_str s in
-  let lit = cpp_string_literal bank in
-  let sub0 = fun l -> fold_left (fun acc a -> subst_word a lit acc) v.v_args l
-  in
-  let inner =
-    app (map (fun l -> SArb (sub0 l)) v.v_code) ((SSet (var,
-      v.v_result)) :: [])
-  in
-  ({ g_vars = (app g.g_vars ({ vd_type = ty; vd_name = var } :: []));
-  g_stmts = (app g.g_stmts ((SBlk ([], inner)) :: [])); g_class =
-  (app g.g_class (map fst v.v_fields)); g_book =
-  (app g.g_book
-    (map (fun f -> SSet ((fst f).vd_name, (sub0 (snd f)))) v.v_fields));
-  g_inc = (add_all v.v_includes g.g_inc); g_libs =
-  (add_all v.v_libs g.g_libs); g_ctr = (S g.g_ctr) }, { r_kind = v.v_rep;
-  r_name = var; r_type = s.cs_type; r_pd = s.cs_pd_type; r_elem = s.cs_elem;
-  r_pd_elem = s.cs_pd_elem })
-
-(** val deref_expr : rep -> char list **)
-
-let deref_expr r =
-  if Nat.ltb O r.r_pd
-  then append ('*'::[]) (render_name r.r_name)
-  else render_name r.r_name
-
-(** val wrap_deref : nat -> char list -> char list **)
-
-let rec wrap_deref n0 e =
-  match n0 with
-  | O -> e
-  | S k -> wrap_deref k (append ('('::('*'::[])) (append e (')'::[])))
-
-(** val member_access : char list -> nat -> nat -> char list **)
-
-let member_access e pd extra =
-  let depth = add extra pd in
-  (match depth with
-   | O -> append e ('.'::[])
-   | S k -> append (wrap_deref k e) ('-'::('>'::[])))
-
-(** val emit_decl : vdecl -> char list **)
-
-let emit_decl d =
-  append d.vd_type
-    (append (' '::[]) (append (render_name d.vd_name) (';'::[])))
-
-(** val emit_stmt : stmt -> char list list **)
-
-let rec emit_stmt = function
-| SArb l -> l :: []
-| SSet (t, v) ->
-  (append (render_name t)
-    (append (' '::('='::(' '::[]))) (append v (';'::[])))) :: []
-| SBlk (vars, body) ->
-  ('{'::[]) :: (app (map emit_decl vars)
-                 (app
-                   (let rec go = function
-                    | [] -> []
-                    | x :: r -> app (emit_stmt x) (go r)
-                    in go body) (('}'::[]) :: [])))
-
-(** val emit_stmts : stmt list -> char list list **)
-
-let emit_stmts l =
-  flat_map emit_stmt l
-
-(** val bank_of : use -> char list **)
-
-let bank_of u =
-  match u.u_args with
-  | [] -> []
-  | a :: l ->
-    (match a with
-     | AStr b -> (match l with
-                  | [] -> b
-                  | _ :: _ -> [])
-     | AOther -> [])
-
-(** val find_uses :
-    backend -> cspec list -> use list -> nat -> ((cpv * char list)
-    list * nat) result **)
-
-let rec find_uses b declared us ctr =
-  match us with
-  | [] -> OK ([], ctr)
-  | u :: r ->
-    (match lookup_collection b declared u.u_name with
-     | Some s ->
-       bind (get_collection b.b_coder s u.u_args ctr) (fun x ->
-         let (v, ctr1) = x in
-         bind (find_uses b declared r ctr1) (fun x0 ->
-           let (rest, ctr2) = x0 in OK (((v, (bank_of u)) :: rest), ctr2)))
-     | None -> unmodelled)
-
-(** val translate_uses :
-    (cpv * char list) list -> gstate -> gstate * rep list **)
-
-let rec translate_uses vs g =
-  match vs with
-  | [] -> (g, [])
-  | p :: r ->
-    let (v, b) = p in
-    let (g1, rp) = process_ast_node v b g in
-    let (g2, rps) = translate_uses r g1 in (g2, (rp :: rps))
-
-(** val empty_gstate : nat -> gstate **)
-
-let empty_gstate ctr =
-  { g_vars = []; g_stmts = []; g_class = []; g_book = []; g_inc = [];
-    g_libs = []; g_ctr = ctr }
-
-(** val run_query :
-    cenv -> backend -> mdict list -> use list -> (gstate * rep list) result **)
-
-let run_query e b mds us =
-  bind (process_metadata e.c_kinds mds) (fun declared ->
-    bind (check_backends b declared) (fun _ ->
-      bind (find_uses b declared us (S O)) (fun x ->
-        let (vs, ctr) = x in OK (translate_uses vs (empty_gstate ctr)))))
-
-(** val d_mval : sexp -> mval option **)
-
-let d_mval = function
-| SAtom _ -> None
-| SList l ->
-  (match l with
-   | [] -> None
-   | s0 :: l0 ->
-     (match s0 with
-      | SAtom s1 ->
-        (match s1 with
-         | [] -> None
-         | a::s2 ->
-           (* If this appears, you're using Ascii internals. Please don't *)
- (fun f c ->
-  let n = Char.code c in
-  let h i = (n land (1 lsl i)) <> 0 in
-  f (h 0) (h 1) (h 2) (h 3) (h 4) (h 5) (h 6) (h 7))
-             (fun b b0 b1 b2 b3 b4 b5 b6 ->
-             if b
-             then if b0
-                  then if b1
-                       then None
-                       else if b2
-                            then None
-                            else if b3
-                                 then if b4
-                                      then if b5
-                                           then if b6
-                                                then None
-                                                else (match s2 with
-                                                      | [] ->
-                                                        (match l0 with
-                                                         | [] -> None
-                                                         | s3 :: l1 ->
-                                                           (match s3 with
-                                                            | SAtom v ->
-                                                              (match l1 with
-                                                               | [] ->
-                                                                 Some (MStr v)
-                                                               | _ :: _ ->
-                                                                 None)
-                                                            | SList _ -> None))
-                                                      | _::_ -> None)
-                                           else None
-                                      else None
-                                 else None
-                  else None
-             else if b0
-                  then if b1
-                       then None
-                       else if b2
-                            then None
-                            else if b3
-                                 then None
-                                 else if b4
-                                      then if b5
-                                           then if b6
-                                                then None
-                                                else (match s2 with
-                                                      | [] ->
-                                                        (match l0 with
-                                                         | [] -> None
-                                                         | v :: l1 ->
-                                                           (match l1 with
-                                                            | [] ->
-                                                              option_map
-                                                                (fun x ->
-                                                                MBool x)
-                                                                (d_bool v)
-                                                            | _ :: _ -> None))
-                                                      | _::_ -> None)
-                                           else None
-                                      else None
-                  else if b1
-                       then if b2
-                            then if b3
-                                 then None
-                                 else if b4
-                                      then if b5
-                                           then if b6
-                                                then None
-                                                else (match s2 with
-                                                      | [] ->
-                                                        (match l0 with
-                                                         | [] -> None
-                                                         | v :: l1 ->
-                                                           (match l1 with
-                                                            | [] ->
-                                                              option_map
-                                                                (fun x ->
-                                                                MList x)
-                                                                (d_strs v)
-                                                            | _ :: _ -> None))
-                                                      | _::_ -> None)
-                                           else None
-                                      else None
-                            else None
-                       else None)
-             a)
-      | SList _ -> None))
-
-(** val d_kv : sexp -> (char list * mval) option **)
-
-let d_kv = function
-| SAtom _ -> None
-| SList l ->
-  (match l with
-   | [] -> None
-   | s0 :: l0 ->
-     (match s0 with
-      | SAtom k ->
-        (match l0 with
-         | [] -> None
-         | v :: l1 ->
-           (match l1 with
-            | [] -> option_map (fun x -> (k, x)) (d_mval v)
-            | _ :: _ -> None))
-      | SList _ -> None))
-
-(** val d_mdict : sexp -> mdict option **)
-
-let d_mdict = function
-| SAtom _ -> None
-| SList l -> d_list d_kv l
-
-(** val d_arg : sexp -> arg option **)
-
-let d_arg = function
-| SAtom _ -> None
-| SList l ->
-  (match l with
-   | [] -> None
-   | s0 :: l0 ->
-     (match s0 with
-      | SAtom s1 ->
-        (match s1 with
-         | [] -> None
-         | a::s2 ->
-           (* If this appears, you're using Ascii internals. Please don't *)
- (fun f c ->
-  let n = Char.code c in
-  let h i = (n land (1 lsl i)) <> 0 in
-  f (h 0) (h 1) (h 2) (h 3) (h 4) (h 5) (h 6) (h 7))
-             (fun b b0 b1 b2 b3 b4 b5 b6 ->
-             if b
-             then if b0
-                  then if b1
-                       then if b2
-                            then if b3
-                                 then None
-                                 else if b4
-                                      then if b5
-                                           then if b6
-                                                then None
-                                                else (match s2 with
-                                                      | [] ->
-                                                        (match l0 with
-                                                         | [] -> Some AOther
-                                                         | _ :: _ -> None)
-                                                      | _::_ -> None)
-                                           else None
-                                      else None
-                            else None
-                       else if b2
-                            then None
-                            else if b3
-                                 then if b4
-                                      then if b5
-                                           then if b6
-                                                then None
-                                                else (match s2 with
-                                                      | [] ->
-                                                        (match l0 with
-                                                         | [] -> None
-                                                         | s3 :: l1 ->
-                                                           (match s3 with
-                                                            | SAtom v ->
-                                                              (match l1 with
-                                                               | [] ->
-                                                                 Some (AStr v)
-                                                               | _ :: _ ->
-                                                                 None)
-                                                            | SList _ -> None))
-                                                      | _::_ -> None)
-                                           else None
-                                      else None
-                                 else None
-                  else None
-             else None)
-             a)
-      | SList _ -> None))
-
-(** val d_use : sexp -> use option **)
-
-let d_use = function
-| SAtom _ -> None
-| SList l ->
-  (match l with
-   | [] -> None
-   | s0 :: l0 ->
-     (match s0 with
-      | SAtom n0 ->
-        (match l0 with
-         | [] -> None
-         | s1 :: l1 ->
-           (match s1 with
-            | SAtom _ -> None
-            | SList a ->
-              (match l1 with
-               | [] ->
-                 option_map (fun x -> { u_name = n0; u_args = x })
-                   (d_list d_arg a)
-               | _ :: _ -> None)))
-      | SList _ -> None))
-
-(** val find_backend : char list -> backend list -> backend option **)
-
-let rec find_backend k = function
-| [] -> None
-| b :: r -> if eqb0 k b.b_key then Some b else find_backend k r
-
-(** val s_decl : vdecl -> sexp **)
-
-let s_decl d =
-  SList ((SAtom d.vd_type) :: ((SAtom (render_name d.vd_name)) :: []))
-
-(** val s_rep : rep -> sexp **)
-
-let s_rep r =
-  match r.r_kind with
-  | RVar ->
-    SList ((SAtom ('s'::('i'::('n'::('g'::('l'::('e'::[]))))))) :: ((SAtom
-      (render_name r.r_name)) :: ((SAtom
-      (member_access (render_name r.r_name) r.r_pd O)) :: [])))
-  | RColl ->
-    SList ((SAtom ('c'::('o'::('l'::('l'::[]))))) :: ((SAtom
-      (render_name r.r_name)) :: ((SAtom (deref_expr r)) :: ((SAtom
-      r.r_elem) :: ((s_nat r.r_pd_elem) :: ((SAtom
-      (member_access ('i'::[]) r.r_pd_elem O)) :: []))))))
-
-(** val s_pkg : (gstate * rep list) -> sexp **)
-
-let s_pkg = function
-| (g, reps) ->
-  SList ((SList (map s_decl g.g_vars)) :: ((SList
-    (map (fun s -> s_strs (emit_stmt s)) g.g_stmts)) :: ((SList
-    (map s_decl g.g_class)) :: ((s_strs (emit_stmts g.g_book)) :: ((s_strs
-                                                                    g.g_inc) :: (
-    (s_strs g.g_libs) :: ((SList (map s_rep reps)) :: [])))))))
-
-(** val run_query_wire : cenv -> sexp -> sexp **)
-
-let run_query_wire e = function
-| SAtom _ -> bad_input
-| SList l ->
-  (match l with
-   | [] -> bad_input
-   | s :: l0 ->
-     (match s with
-      | SAtom bk ->
-        (match l0 with
-         | [] -> bad_input
-         | s0 :: l1 ->
-           (match s0 with
-            | SAtom _ -> bad_input
-            | SList mds ->
-              (match l1 with
-               | [] -> bad_input
-               | s1 :: l2 ->
-                 (match s1 with
-                  | SAtom _ -> bad_input
-                  | SList us ->
-                    (match l2 with
-                     | [] ->
-                       (match find_backend bk e.c_backends with
-                        | Some b ->
-                          (match d_list d_mdict mds with
-                           | Some mds' ->
-                             (match d_list d_use us with
-                              | Some us' ->
-                                s_result s_pkg (run_query e b mds' us')
-                              | None -> bad_input)
-                           | None -> bad_input)
-                        | None -> bad_input)
-                     | _ :: _ -> bad_input)))))
-      | SList _ -> bad_input))
-
-(** val run_subst_wire : sexp -> sexp **)
-
-let run_subst_wire = function
-| SAtom _ -> bad_input
-| SList l ->
-  (match l with
-   | [] -> bad_input
-   | s0 :: l0 ->
-     (match s0 with
-      | SAtom w ->
-        (match l0 with
-         | [] -> bad_input
-         | s1 :: l1 ->
-           (match s1 with
-            | SAtom repl ->
-              (match l1 with
-               | [] -> bad_input
-               | s2 :: l2 ->
-                 (match s2 with
-                  | SAtom s ->
-                    (match l2 with
-                     | [] -> SAtom (subst_word w repl s)
-                     | _ :: _ -> bad_input)
-                  | SList _ -> bad_input))
-            | SList _ -> bad_input))
-      | SList _ -> bad_input))
-
-(** val s_hole : hole -> char list **)
-
-let s_hole = function
-| HCont -> 'c'::('o'::('n'::('t'::[])))
-| HType -> 't'::('y'::('p'::('e'::[])))
-| HTok -> 't'::('o'::('k'::[]))
-
-(** val s_pattern : pattern -> sexp **)
-
-let s_pattern p =
-  SList
-    (map (fun x ->
-      match x with
-      | PLit s -> SList ((SAtom ('l'::('i'::('t'::[])))) :: ((SAtom s) :: []))
-      | PHole h ->
-        SList ((SAtom ('h'::('o'::('l'::('e'::[]))))) :: ((SAtom
-          (s_hole h)) :: []))
-      | PArg -> SList ((SAtom ('a'::('r'::('g'::[])))) :: [])) p)
-
-(** val s_spec : cspec -> sexp **)
-
-let s_spec s =
-  SList ((SAtom s.cs_backend) :: ((SAtom
-    s.cs_name) :: ((s_strs s.cs_includes) :: ((SAtom
-    (match s.cs_kind with
-     | KSingle -> 's'::('i'::('n'::('g'::('l'::('e'::[])))))
-     | KColl -> 'c'::('o'::('l'::('l'::[]))))) :: ((SAtom
-    s.cs_type) :: ((s_nat s.cs_pd_type) :: ((SAtom
-    s.cs_elem) :: ((s_nat s.cs_pd_elem) :: ((SAtom (cont_str s)) :: ((SAtom
-    (match token_type s with
-     | Some t -> t
-     | None -> [])) :: ((s_strs s.cs_libs) :: [])))))))))))
-
-(** val run_tables_wire : cenv -> sexp **)
-
-let run_tables_wire e =
-  SList
-    (map (fun b -> SList ((SAtom b.b_key) :: ((SAtom b.b_accepts) :: ((SList
-      (map s_spec b.b_table)) :: ((SList
-      (map s_pattern b.b_coder.cd_lines)) :: ((SAtom
-      (match b.b_coder.cd_alloc with
-       | TokNone -> 'n'::('o'::('n'::('e'::[])))
-       | TokPerClass ->
-         'p'::('e'::('r'::('-'::('c'::('l'::('a'::('s'::('s'::[]))))))))
-       | TokPerCall ->
-         'p'::('e'::('r'::('-'::('c'::('a'::('l'::('l'::[]))))))))) :: []))))))
-      e.c_backends)
-
-(** val atlas_table : cspec list **)
-
-let atlas_table =
-  { cs_backend = ('a'::('t'::('l'::('a'::('s'::[]))))); cs_name =
-    ('J'::('e'::('t'::('s'::[])))); cs_includes =
-    (('x'::('A'::('O'::('D'::('J'::('e'::('t'::('/'::('J'::('e'::('t'::('C'::('o'::('n'::('t'::('a'::('i'::('n'::('e'::('r'::('.'::('h'::[])))))))))))))))))))))) :: []);
-    cs_kind = KColl; cs_type =
-    ('x'::('A'::('O'::('D'::(':'::(':'::('J'::('e'::('t'::('C'::('o'::('n'::('t'::('a'::('i'::('n'::('e'::('r'::[]))))))))))))))))));
-    cs_pd_type = (S O); cs_elem =
-    ('x'::('A'::('O'::('D'::(':'::(':'::('J'::('e'::('t'::[])))))))));
-    cs_pd_elem = (S O); cs_str = ((PLit
-    ('c'::('o'::('n'::('s'::('t'::(' '::[]))))))) :: ((PHole HType) :: ((PLit
-    ('*'::[])) :: []))); cs_token = None; cs_libs =
-    (('x'::('A'::('O'::('D'::('J'::('e'::('t'::[]))))))) :: []) } :: ({ cs_backend =
-    ('a'::('t'::('l'::('a'::('s'::[]))))); cs_name =
-    ('T'::('r'::('a'::('c'::('k'::('s'::[])))))); cs_includes =
-    (('x'::('A'::('O'::('D'::('T'::('r'::('a'::('c'::('k'::('i'::('n'::('g'::('/'::('T'::('r'::('a'::('c'::('k'::('P'::('a'::('r'::('t'::('i'::('c'::('l'::('e'::('C'::('o'::('n'::('t'::('a'::('i'::('n'::('e'::('r'::('.'::('h'::[]))))))))))))))))))))))))))))))))))))) :: []);
-    cs_kind = KColl; cs_type =
-    ('x'::('A'::('O'::('D'::(':'::(':'::('T'::('r'::('a'::('c'::('k'::('P'::('a'::('r'::('t'::('i'::('c'::('l'::('e'::('C'::('o'::('n'::('t'::('a'::('i'::('n'::('e'::('r'::[]))))))))))))))))))))))))))));
-    cs_pd_type = (S O); cs_elem =
-    ('x'::('A'::('O'::('D'::(':'::(':'::('T'::('r'::('a'::('c'::('k'::('P'::('a'::('r'::('t'::('i'::('c'::('l'::('e'::[])))))))))))))))))));
-    cs_pd_elem = (S O); cs_str = ((PLit
-    ('c'::('o'::('n'::('s'::('t'::(' '::[]))))))) :: ((PHole HType) :: ((PLit
-    ('*'::[])) :: []))); cs_token = None; cs_libs =
-    (('x'::('A'::('O'::('D'::('T'::('r'::('a'::('c'::('k'::('i'::('n'::('g'::[])))))))))))) :: []) } :: ({ cs_backend =
-    ('a'::('t'::('l'::('a'::('s'::[]))))); cs_name =
-    ('E'::('v'::('e'::('n'::('t'::('I'::('n'::('f'::('o'::[])))))))));
-    cs_includes =
-    (('x'::('A'::('O'::('D'::('E'::('v'::('e'::('n'::('t'::('I'::('n'::('f'::('o'::('/'::('E'::('v'::('e'::('n'::('t'::('I'::('n'::('f'::('o'::('.'::('h'::[]))))))))))))))))))))))))) :: []);
-    cs_kind = KSingle; cs_type =
-    ('x'::('A'::('O'::('D'::(':'::(':'::('E'::('v'::('e'::('n'::('t'::('I'::('n'::('f'::('o'::[])))))))))))))));
-    cs_pd_type = (S O); cs_elem = []; cs_pd_elem = O; cs_str = ((PLit
-    ('c'::('o'::('n'::('s'::('t'::(' '::[]))))))) :: ((PHole HType) :: ((PLit
-    (' '::('*'::[]))) :: []))); cs_token = None; cs_libs =
-    (('x'::('A'::('O'::('D'::('E'::('v'::('e'::('n'::('t'::('I'::('n'::('f'::('o'::[]))))))))))))) :: []) } :: ({ cs_backend =
-    ('a'::('t'::('l'::('a'::('s'::[]))))); cs_name =
-    ('T'::('r'::('u'::('t'::('h'::('P'::('a'::('r'::('t'::('i'::('c'::('l'::('e'::('s'::[]))))))))))))));
-    cs_includes =
-    (('x'::('A'::('O'::('D'::('T'::('r'::('u'::('t'::('h'::('/'::('T'::('r'::('u'::('t'::('h'::('P'::('a'::('r'::('t'::('i'::('c'::('l'::('e'::('C'::('o'::('n'::('t'::('a'::('i'::('n'::('e'::('r'::('.'::('h'::[])))))))))))))))))))))))))))))))))) :: (('x'::('A'::('O'::('D'::('T'::('r'::('u'::('t'::('h'::('/'::('T'::('r'::('u'::('t'::('h'::('P'::('a'::('r'::('t'::('i'::('c'::('l'::('e'::('.'::('h'::[]))))))))))))))))))))))))) :: (('x'::('A'::('O'::('D'::('T'::('r'::('u'::('t'::('h'::('/'::('T'::('r'::('u'::('t'::('h'::('V'::('e'::('r'::('t'::('e'::('x'::('.'::('h'::[]))))))))))))))))))))))) :: [])));
-    cs_kind = KColl; cs_type =
-    ('x'::('A'::('O'::('D'::(':'::(':'::('T'::('r'::('u'::('t'::('h'::('P'::('a'::('r'::('t'::('i'::('c'::('l'::('e'::('C'::('o'::('n'::('t'::('a'::('i'::('n'::('e'::('r'::[]))))))))))))))))))))))))))));
-    cs_pd_type = (S O); cs_elem =
-    ('x'::('A'::('O'::('D'::(':'::(':'::('T'::('r'::('u'::('t'::('h'::('P'::('a'::('r'::('t'::('i'::('c'::('l'::('e'::[])))))))))))))))))));
-    cs_pd_elem = (S O); cs_str = ((PLit
-    ('c'::('o'::('n'::('s'::('t'::(' '::[]))))))) :: ((PHole HType) :: ((PLit
-    ('*'::[])) :: []))); cs_token = None; cs_libs =
-    (('x'::('A'::('O'::('D'::('T'::('r'::('u'::('t'::('h'::[]))))))))) :: []) } :: ({ cs_backend =
-    ('a'::('t'::('l'::('a'::('s'::[]))))); cs_name =
-    ('E'::('l'::('e'::('c'::('t'::('r'::('o'::('n'::('s'::[])))))))));
-    cs_includes =
-    (('x'::('A'::('O'::('D'::('E'::('g'::('a'::('m'::('m'::('a'::('/'::('E'::('l'::('e'::('c'::('t'::('r'::('o'::('n'::('C'::('o'::('n'::('t'::('a'::('i'::('n'::('e'::('r'::('.'::('h'::[])))))))))))))))))))))))))))))) :: (('x'::('A'::('O'::('D'::('E'::('g'::('a'::('m'::('m'::('a'::('/'::('E'::('l'::('e'::('c'::('t'::('r'::('o'::('n'::('.'::('h'::[]))))))))))))))))))))) :: []));
-    cs_kind = KColl; cs_type =
-    ('x'::('A'::('O'::('D'::(':'::(':'::('E'::('l'::('e'::('c'::('t'::('r'::('o'::('n'::('C'::('o'::('n'::('t'::('a'::('i'::('n'::('e'::('r'::[])))))))))))))))))))))));
-    cs_pd_type = (S O); cs_elem =
-    ('x'::('A'::('O'::('D'::(':'::(':'::('E'::('l'::('e'::('c'::('t'::('r'::('o'::('n'::[]))))))))))))));
-    cs_pd_elem = (S O); cs_str = ((PLit
-    ('c'::('o'::('n'::('s'::('t'::(' '::[]))))))) :: ((PHole HType) :: ((PLit
-    ('*'::[])) :: []))); cs_token = None; cs_libs =
-    (('x'::('A'::('O'::('D'::('E'::('g'::('a'::('m'::('m'::('a'::[])))))))))) :: []) } :: ({ cs_backend =
-    ('a'::('t'::('l'::('a'::('s'::[]))))); cs_name =
-    ('M'::('u'::('o'::('n'::('s'::[]))))); cs_includes =
-    (('x'::('A'::('O'::('D'::('M'::('u'::('o'::('n'::('/'::('M'::('u'::('o'::('n'::('C'::('o'::('n'::('t'::('a'::('i'::('n'::('e'::('r'::('.'::('h'::[])))))))))))))))))))))))) :: (('x'::('A'::('O'::('D'::('M'::('u'::('o'::('n'::('/'::('M'::('u'::('o'::('n'::('.'::('h'::[]))))))))))))))) :: []));
-    cs_kind = KColl; cs_type =
-    ('x'::('A'::('O'::('D'::(':'::(':'::('M'::('u'::('o'::('n'::('C'::('o'::('n'::('t'::('a'::('i'::('n'::('e'::('r'::[])))))))))))))))))));
-    cs_pd_type = (S O); cs_elem =
-    ('x'::('A'::('O'::('D'::(':'::(':'::('M'::('u'::('o'::('n'::[]))))))))));
-    cs_pd_elem = (S O); cs_str = ((PLit
-    ('c'::('o'::('n'::('s'::('t'::(' '::[]))))))) :: ((PHole HType) :: ((PLit
-    ('*'::[])) :: []))); cs_token = None; cs_libs =
-    (('x'::('A'::('O'::('D'::('M'::('u'::('o'::('n'::[])))))))) :: []) } :: ({ cs_backend =
-    ('a'::('t'::('l'::('a'::('s'::[]))))); cs_name =
-    ('M'::('i'::('s'::('s'::('i'::('n'::('g'::('E'::('T'::[])))))))));
-    cs_includes =
-    (('x'::('A'::('O'::('D'::('M'::('i'::('s'::('s'::('i'::('n'::('g'::('E'::('T'::('/'::('M'::('i'::('s'::('s'::('i'::('n'::('g'::('E'::('T'::('C'::('o'::('n'::('t'::('a'::('i'::('n'::('e'::('r'::('.'::('h'::[])))))))))))))))))))))))))))))))))) :: (('x'::('A'::('O'::('D'::('M'::('i'::('s'::('s'::('i'::('n'::('g'::('E'::('T'::('/'::('M'::('i'::('s'::('s'::('i'::('n'::('g'::('E'::('T'::('.'::('h'::[]))))))))))))))))))))))))) :: []));
-    cs_kind = KColl; cs_type =
-    ('x'::('A'::('O'::('D'::(':'::(':'::('M'::('i'::('s'::('s'::('i'::('n'::('g'::('E'::('T'::('C'::('o'::('n'::('t'::('a'::('i'::('n'::('e'::('r'::[]))))))))))))))))))))))));
-    cs_pd_type = (S O); cs_elem =
-    ('x'::('A'::('O'::('D'::(':'::(':'::('M'::('i'::('s'::('s'::('i'::('n'::('g'::('E'::('T'::[])))))))))))))));
-    cs_pd_elem = (S O); cs_str = ((PLit
-    ('c'::('o'::('n'::('s'::('t'::(' '::[]))))))) :: ((PHole HType) :: ((PLit
-    ('*'::[])) :: []))); cs_token = None; cs_libs =
-    (('x'::('A'::('O'::('D'::('M'::('i'::('s'::('s'::('i'::('n'::('g'::('E'::('T'::[]))))))))))))) :: []) } :: []))))))
-
-(** val atlas_coder : coder **)
-
-let atlas_coder =
-  { cd_lines = (((PHole HCont) :: ((PLit
-    (' '::('r'::('e'::('s'::('u'::('l'::('t'::(' '::('='::(' '::('0'::(';'::[]))))))))))))) :: [])) :: (((PLit
-    ('A'::('N'::('A'::('_'::('C'::('H'::('E'::('C'::('K'::(' '::('('::('e'::('v'::('t'::('S'::('t'::('o'::('r'::('e'::('('::(')'::('-'::('>'::('r'::('e'::('t'::('r'::('i'::('e'::('v'::('e'::('('::('r'::('e'::('s'::('u'::('l'::('t'::(','::(' '::('c'::('o'::('l'::('l'::('e'::('c'::('t'::('i'::('o'::('n'::('_'::('n'::('a'::('m'::('e'::(')'::(')'::(';'::[]))))))))))))))))))))))))))))))))))))))))))))))))))))))))))) :: []) :: []));
-    cd_alloc = TokNone; cd_init = None }
-
-(** val atlas_backend : backend **)
-
-let atlas_backend =
-  { b_key = ('a'::('t'::('l'::('a'::('s'::[]))))); b_accepts =
-    ('a'::('t'::('l'::('a'::('s'::[]))))); b_table = atlas_table; b_coder =
-    atlas_coder }
-
-(** val cms_aod_table : cspec list **)
-
-let cms_aod_table =
-  { cs_backend = ('c'::('m'::('s'::('_'::('a'::('o'::('d'::[])))))));
-    cs_name = ('T'::('r'::('a'::('c'::('k'::('s'::[])))))); cs_includes =
-    (('D'::('a'::('t'::('a'::('F'::('o'::('r'::('m'::('a'::('t'::('s'::('/'::('T'::('r'::('a'::('c'::('k'::('R'::('e'::('c'::('o'::('/'::('i'::('n'::('t'::('e'::('r'::('f'::('a'::('c'::('e'::('/'::('T'::('r'::('a'::('c'::('k'::('.'::('h'::[]))))))))))))))))))))))))))))))))))))))) :: (('D'::('a'::('t'::('a'::('F'::('o'::('r'::('m'::('a'::('t'::('s'::('/'::('T'::('r'::('a'::('c'::('k'::('R'::('e'::('c'::('o'::('/'::('i'::('n'::('t'::('e'::('r'::('f'::('a'::('c'::('e'::('/'::('T'::('r'::('a'::('c'::('k'::('F'::('w'::('d'::('.'::('h'::[])))))))))))))))))))))))))))))))))))))))))) :: (('D'::('a'::('t'::('a'::('F'::('o'::('r'::('m'::('a'::('t'::('s'::('/'::('T'::('r'::('a'::('c'::('k'::('R'::('e'::('c'::('o'::('/'::('i'::('n'::('t'::('e'::('r'::('f'::('a'::('c'::('e'::('/'::('H'::('i'::('t'::('P'::('a'::('t'::('t'::('e'::('r'::('n'::('.'::('h'::[])))))))))))))))))))))))))))))))))))))))))))) :: [])));
-    cs_kind = KColl; cs_type =
-    ('r'::('e'::('c'::('o'::(':'::(':'::('T'::('r'::('a'::('c'::('k'::('C'::('o'::('l'::('l'::('e'::('c'::('t'::('i'::('o'::('n'::[])))))))))))))))))))));
-    cs_pd_type = (S O); cs_elem =
-    ('r'::('e'::('c'::('o'::(':'::(':'::('T'::('r'::('a'::('c'::('k'::[])))))))))));
-    cs_pd_elem = O; cs_str = ((PLit
-    ('e'::('d'::('m'::(':'::(':'::('H'::('a'::('n'::('d'::('l'::('e'::('<'::[]))))))))))))) :: ((PHole
-    HType) :: ((PLit ('>'::[])) :: []))); cs_token = None; cs_libs =
-    [] } :: ({ cs_backend =
-    ('c'::('m'::('s'::('_'::('a'::('o'::('d'::[]))))))); cs_name =
-    ('T'::('r'::('a'::('c'::('k'::('M'::('u'::('o'::('n'::('s'::[]))))))))));
-    cs_includes =
-    (('D'::('a'::('t'::('a'::('F'::('o'::('r'::('m'::('a'::('t'::('s'::('/'::('M'::('u'::('o'::('n'::('R'::('e'::('c'::('o'::('/'::('i'::('n'::('t'::('e'::('r'::('f'::('a'::('c'::('e'::('/'::('M'::('u'::('o'::('n'::('.'::('h'::[]))))))))))))))))))))))))))))))))))))) :: (('D'::('a'::('t'::('a'::('F'::('o'::('r'::('m'::('a'::('t'::('s'::('/'::('M'::('u'::('o'::('n'::('R'::('e'::('c'::('o'::('/'::('i'::('n'::('t'::('e'::('r'::('f'::('a'::('c'::('e'::('/'::('M'::('u'::('o'::('n'::('F'::('w'::('d'::('.'::('h'::[])))))))))))))))))))))))))))))))))))))))) :: (('D'::('a'::('t'::('a'::('F'::('o'::('r'::('m'::('a'::('t'::('s'::('/'::('M'::('u'::('o'::('n'::('R'::('e'::('c'::('o'::('/'::('i'::('n'::('t'::('e'::('r'::('f'::('a'::('c'::('e'::('/'::('M'::('u'::('o'::('n'::('S'::('e'::('l'::('e'::('c'::('t'::('o'::('r'::('s'::('.'::('h'::[])))))))))))))))))))))))))))))))))))))))))))))) :: (('D'::('a'::('t'::('a'::('F'::('o'::('r'::('m'::('a'::('t'::('s'::('/'::('M'::('u'::('o'::('n'::('R'::('e'::('c'::('o'::('/'::('i'::('n'::('t'::('e'::('r'::('f'::('a'::('c'::('e'::('/'::('M'::('u'::('o'::('n'::('I'::('s'::('o'::('l'::('a'::('t'::('i'::('o'::('n'::('.'::('h'::[])))))))))))))))))))))))))))))))))))))))))))))) :: (('D'::('a'::('t'::('a'::('F'::('o'::('r'::('m'::('a'::('t'::('s'::('/'::('M'::('u'::('o'::('n'::('R'::('e'::('c'::('o'::('/'::('i'::('n'::('t'::('e'::('r'::('f'::('a'::('c'::('e'::('/'::('M'::('u'::('o'::('n'::('P'::('F'::('I'::('s'::('o'::('l'::('a'::('t'::('i'::('o'::('n'::('.'::('h'::[])))))))))))))))))))))))))))))))))))))))))))))))) :: (('D'::('a'::('t'::('a'::('F'::('o'::('r'::('m'::('a'::('t'::('s'::('/'::('T'::('r'::('a'::('c'::('k'::('R'::('e'::('c'::('o'::('/'::('i'::('n'::('t'::('e'::('r'::('f'::('a'::('c'::('e'::('/'::('T'::('r'::('a'::('c'::('k'::('.'::('h'::[]))))))))))))))))))))))))))))))))))))))) :: (('D'::('a'::('t'::('a'::('F'::('o'::('r'::('m'::('a'::('t'::('s'::('/'::('T'::('r'::('a'::('c'::('k'::('R'::('e'::('c'::('o'::('/'::('i'::('n'::('t'::('e'::('r'::('f'::('a'::('c'::('e'::('/'::('T'::('r'::('a'::('c'::('k'::('F'::('w'::('d'::('.'::('h'::[])))))))))))))))))))))))))))))))))))))))))) :: (('D'::('a'::('t'::('a'::('F'::('o'::('r'::('m'::('a'::('t'::('s'::('/'::('T'::('r'::('a'::('c'::('k'::('R'::('e'::('c'::('o'::('/'::('i'::('n'::('t'::('e'::('r'::('f'::('a'::('c'::('e'::('/'::('H'::('i'::('t'::('P'::('a'::('t'::('t'::('e'::('r'::('n'::('.'::('h'::[])))))))))))))))))))))))))))))))))))))))))))) :: []))))))));
-    cs_kind = KColl; cs_type =
-    ('r'::('e'::('c'::('o'::(':'::(':'::('T'::('r'::('a'::('c'::('k'::('C'::('o'::('l'::('l'::('e'::('c'::('t'::('i'::('o'::('n'::[])))))))))))))))))))));
-    cs_pd_type = (S O); cs_elem =
-    ('r'::('e'::('c'::('o'::(':'::(':'::('T'::('r'::('a'::('c'::('k'::[])))))))))));
-    cs_pd_elem = O; cs_str = ((PLit
-    ('e'::('d'::('m'::(':'::(':'::('H'::('a'::('n'::('d'::('l'::('e'::('<'::[]))))))))))))) :: ((PHole
-    HType) :: ((PLit ('>'::[])) :: []))); cs_token = None; cs_libs =
-    [] } :: ({ cs_backend =
-    ('c'::('m'::('s'::('_'::('a'::('o'::('d'::[]))))))); cs_name =
-    ('M'::('u'::('o'::('n'::('s'::[]))))); cs_includes =
-    (('D'::('a'::('t'::('a'::('F'::('o'::('r'::('m'::('a'::('t'::('s'::('/'::('M'::('u'::('o'::('n'::('R'::('e'::('c'::('o'::('/'::('i'::('n'::('t'::('e'::('r'::('f'::('a'::('c'::('e'::('/'::('M'::('u'::('o'::('n'::('.'::('h'::[]))))))))))))))))))))))))))))))))))))) :: (('D'::('a'::('t'::('a'::('F'::('o'::('r'::('m'::('a'::('t'::('s'::('/'::('M'::('u'::('o'::('n'::('R'::('e'::('c'::('o'::('/'::('i'::('n'::('t'::('e'::('r'::('f'::('a'::('c'::('e'::('/'::('M'::('u'::('o'::('n'::('F'::('w'::('d'::('.'::('h'::[])))))))))))))))))))))))))))))))))))))))) :: (('D'::('a'::('t'::('a'::('F'::('o'::('r'::('m'::('a'::('t'::('s'::('/'::('M'::('u'::('o'::('n'::('R'::('e'::('c'::('o'::('/'::('i'::('n'::('t'::('e'::('r'::('f'::('a'::('c'::('e'::('/'::('M'::('u'::('o'::('n'::('S'::('e'::('l'::('e'::('c'::('t'::('o'::('r'::('s'::('.'::('h'::[])))))))))))))))))))))))))))))))))))))))))))))) :: (('D'::('a'::('t'::('a'::('F'::('o'::('r'::('m'::('a'::('t'::('s'::('/'::('M'::('u'::('o'::('n'::('R'::('e'::('c'::('o'::('/'::('i'::('n'::('t'::('e'::('r'::('f'::('a'::('c'::('e'::('/'::('M'::('u'::('o'::('n'::('I'::('s'::('o'::('l'::('a'::('t'::('i'::('o'::('n'::('.'::('h'::[])))))))))))))))))))))))))))))))))))))))))))))) :: (('D'::('a'::('t'::('a'::('F'::('o'::('r'::('m'::('a'::('t'::('s'::('/'::('M'::('u'::('o'::('n'::('R'::('e'::('c'::('o'::('/'::('i'::('n'::('t'::('e'::('r'::('f'::('a'::('c'::('e'::('/'::('M'::('u'::('o'::('n'::('P'::('F'::('I'::('s'::('o'::('l'::('a'::('t'::('i'::('o'::('n'::('.'::('h'::[])))))))))))))))))))))))))))))))))))))))))))))))) :: [])))));
-    cs_kind = KColl; cs_type =
-    ('r'::('e'::('c'::('o'::(':'::(':'::('M'::('u'::('o'::('n'::('C'::('o'::('l'::('l'::('e'::('c'::('t'::('i'::('o'::('n'::[]))))))))))))))))))));
-    cs_pd_type = (S O); cs_elem =
-    ('r'::('e'::('c'::('o'::(':'::(':'::('M'::('u'::('o'::('n'::[]))))))))));
-    cs_pd_elem = O; cs_str = ((PLit
-    ('e'::('d'::('m'::(':'::(':'::('H'::('a'::('n'::('d'::('l'::('e'::('<'::[]))))))))))))) :: ((PHole
-    HType) :: ((PLit ('>'::[])) :: []))); cs_token = None; cs_libs =
-    [] } :: ({ cs_backend =
-    ('c'::('m'::('s'::('_'::('a'::('o'::('d'::[]))))))); cs_name =
-    ('V'::('e'::('r'::('t'::('e'::('x'::[])))))); cs_includes =
-    (('D'::('a'::('t'::('a'::('F'::('o'::('r'::('m'::('a'::('t'::('s'::('/'::('V'::('e'::('r'::('t'::('e'::('x'::('R'::('e'::('c'::('o'::('/'::('i'::('n'::('t'::('e'::('r'::('f'::('a'::('c'::('e'::('/'::('V'::('e'::('r'::('t'::('e'::('x'::('.'::('h'::[]))))))))))))))))))))))))))))))))))))))))) :: (('D'::('a'::('t'::('a'::('F'::('o'::('r'::('m'::('a'::('t'::('s'::('/'::('V'::('e'::('r'::('t'::('e'::('x'::('R'::('e'::('c'::('o'::('/'::('i'::('n'::('t'::('e'::('r'::('f'::('a'::('c'::('e'::('/'::('V'::('e'::('r'::('t'::('e'::('x'::('F'::('w'::('d'::('.'::('h'::[])))))))))))))))))))))))))))))))))))))))))))) :: []));
-    cs_kind = KColl; cs_type =
-    ('r'::('e'::('c'::('o'::(':'::(':'::('V'::('e'::('r'::('t'::('e'::('x'::('C'::('o'::('l'::('l'::('e'::('c'::('t'::('i'::('o'::('n'::[]))))))))))))))))))))));
-    cs_pd_type = (S O); cs_elem =
-    ('r'::('e'::('c'::('o'::(':'::(':'::('V'::('e'::('r'::('t'::('e'::('x'::[]))))))))))));
-    cs_pd_elem = O; cs_str = ((PLit
-    ('e'::('d'::('m'::(':'::(':'::('H'::('a'::('n'::('d'::('l'::('e'::('<'::[]))))))))))))) :: ((PHole
-    HType) :: ((PLit ('>'::[])) :: []))); cs_token = None; cs_libs =
-    [] } :: ({ cs_backend =
-    ('c'::('m'::('s'::('_'::('a'::('o'::('d'::[]))))))); cs_name =
-    ('G'::('s'::('f'::('E'::('l'::('e'::('c'::('t'::('r'::('o'::('n'::('s'::[]))))))))))));
-    cs_includes =
-    (('D'::('a'::('t'::('a'::('F'::('o'::('r'::('m'::('a'::('t'::('s'::('/'::('E'::('g'::('a'::('m'::('m'::('a'::('C'::('a'::('n'::('d'::('i'::('d'::('a'::('t'::('e'::('s'::('/'::('i'::('n'::('t'::('e'::('r'::('f'::('a'::('c'::('e'::('/'::('G'::('s'::('f'::('E'::('l'::('e'::('c'::('t'::('r'::('o'::('n'::('.'::('h'::[])))))))))))))))))))))))))))))))))))))))))))))))))))) :: (('D'::('a'::('t'::('a'::('F'::('o'::('r'::('m'::('a'::('t'::('s'::('/'::('G'::('s'::('f'::('T'::('r'::('a'::('c'::('k'::('R'::('e'::('c'::('o'::('/'::('i'::('n'::('t'::('e'::('r'::('f'::('a'::('c'::('e'::('/'::('G'::('s'::('f'::('T'::('r'::('a'::('c'::('k'::('.'::('h'::[]))))))))))))))))))))))))))))))))))))))))))))) :: (('D'::('a'::('t'::('a'::('F'::('o'::('r'::('m'::('a'::('t'::('s'::('/'::('G'::('s'::('f'::('T'::('r'::('a'::('c'::('k'::('R'::('e'::('c'::('o'::('/'::('i'::('n'::('t'::('e'::('r'::('f'::('a'::('c'::('e'::('/'::('G'::('s'::('f'::('T'::('r'::('a'::('c'::('k'::('F'::('w'::('d'::('.'::('h'::[])))))))))))))))))))))))))))))))))))))))))))))))) :: [])));
-    cs_kind = KColl; cs_type =
-    ('r'::('e'::('c'::('o'::(':'::(':'::('G'::('s'::('f'::('E'::('l'::('e'::('c'::('t'::('r'::('o'::('n'::('C'::('o'::('l'::('l'::('e'::('c'::('t'::('i'::('o'::('n'::[])))))))))))))))))))))))))));
-    cs_pd_type = (S O); cs_elem =
-    ('r'::('e'::('c'::('o'::(':'::(':'::('G'::('s'::('f'::('E'::('l'::('e'::('c'::('t'::('r'::('o'::('n'::[])))))))))))))))));
-    cs_pd_elem = O; cs_str = ((PLit
-    ('e'::('d'::('m'::(':'::(':'::('H'::('a'::('n'::('d'::('l'::('e'::('<'::[]))))))))))))) :: ((PHole
-    HType) :: ((PLit ('>'::[])) :: []))); cs_token = None; cs_libs =
-    [] } :: []))))
-
-(** val cms_aod_coder : coder **)
-
-let cms_aod_coder =
-  { cd_lines = (((PHole HCont) :: ((PLit
-    (' '::('r'::('e'::('s'::('u'::('l'::('t'::(';'::[]))))))))) :: [])) :: (((PLit
-    ('i'::('E'::('v'::('e'::('n'::('t'::('.'::('g'::('e'::('t'::('B'::('y'::('L'::('a'::('b'::('e'::('l'::('('::('c'::('o'::('l'::('l'::('e'::('c'::('t'::('i'::('o'::('n'::('_'::('n'::('a'::('m'::('e'::(','::(' '::('r'::('e'::('s'::('u'::('l'::('t'::(')'::(';'::[])))))))))))))))))))))))))))))))))))))))))))) :: []) :: []));
-    cd_alloc = TokNone; cd_init = None }
-
-(** val cms_aod_backend : backend **)
-
-let cms_aod_backend =
-  { b_key = ('c'::('m'::('s'::('_'::('a'::('o'::('d'::[]))))))); b_accepts =
-    ('c'::('m'::('s'::('_'::('a'::('o'::('d'::[]))))))); b_table =
-    cms_aod_table; b_coder = cms_aod_coder }
-
-(** val cms_miniaod_table : cspec list **)
-
-let cms_miniaod_table =
-  { cs_backend =
-    ('c'::('m'::('s'::('_'::('m'::('i'::('n'::('i'::('a'::('o'::('d'::[])))))))))));
-    cs_name = ('M'::('u'::('o'::('n'::('s'::[]))))); cs_includes =
-    (('D'::('a'::('t'::('a'::('F'::('o'::('r'::('m'::('a'::('t'::('s'::('/'::('P'::('a'::('t'::('C'::('a'::('n'::('d'::('i'::('d'::('a'::('t'::('e'::('s'::('/'::('i'::('n'::('t'::('e'::('r'::('f'::('a'::('c'::('e'::('/'::('M'::('u'::('o'::('n'::('.'::('h'::[])))))))))))))))))))))))))))))))))))))))))) :: []);
-    cs_kind = KColl; cs_type =
-    ('p'::('a'::('t'::(':'::(':'::('M'::('u'::('o'::('n'::('C'::('o'::('l'::('l'::('e'::('c'::('t'::('i'::('o'::('n'::[])))))))))))))))))));
-    cs_pd_type = (S O); cs_elem =
-    ('p'::('a'::('t'::(':'::(':'::('M'::('u'::('o'::('n'::[])))))))));
-    cs_pd_elem = O; cs_str = ((PLit
-    ('H'::('a'::('n'::('d'::('l'::('e'::('<'::[])))))))) :: ((PHole
-    HType) :: ((PLit ('>'::[])) :: []))); cs_token = (Some ((PLit
-    ('e'::('d'::('m'::(':'::(':'::('E'::('D'::('G'::('e'::('t'::('T'::('o'::('k'::('e'::('n'::('T'::('<'::[])))))))))))))))))) :: ((PHole
-    HType) :: ((PLit ('>'::[])) :: [])))); cs_libs = [] } :: ({ cs_backend =
-    ('c'::('m'::('s'::('_'::('m'::('i'::('n'::('i'::('a'::('o'::('d'::[])))))))))));
-    cs_name = ('V'::('e'::('r'::('t'::('e'::('x'::[])))))); cs_includes =
-    (('D'::('a'::('t'::('a'::('F'::('o'::('r'::('m'::('a'::('t'::('s'::('/'::('V'::('e'::('r'::('t'::('e'::('x'::('R'::('e'::('c'::('o'::('/'::('i'::('n'::('t'::('e'::('r'::('f'::('a'::('c'::('e'::('/'::('V'::('e'::('r'::('t'::('e'::('x'::('.'::('h'::[]))))))))))))))))))))))))))))))))))))))))) :: (('D'::('a'::('t'::('a'::('F'::('o'::('r'::('m'::('a'::('t'::('s'::('/'::('V'::('e'::('r'::('t'::('e'::('x'::('R'::('e'::('c'::('o'::('/'::('i'::('n'::('t'::('e'::('r'::('f'::('a'::('c'::('e'::('/'::('V'::('e'::('r'::('t'::('e'::('x'::('F'::('w'::('d'::('.'::('h'::[])))))))))))))))))))))))))))))))))))))))))))) :: []));
-    cs_kind = KColl; cs_type =
-    ('r'::('e'::('c'::('o'::(':'::(':'::('V'::('e'::('r'::('t'::('e'::('x'::('C'::('o'::('l'::('l'::('e'::('c'::('t'::('i'::('o'::('n'::[]))))))))))))))))))))));
-    cs_pd_type = (S O); cs_elem =
-    ('r'::('e'::('c'::('o'::(':'::(':'::('V'::('e'::('r'::('t'::('e'::('x'::[]))))))))))));
-    cs_pd_elem = O; cs_str = ((PLit
-    ('H'::('a'::('n'::('d'::('l'::('e'::('<'::[])))))))) :: ((PHole
-    HType) :: ((PLit ('>'::[])) :: []))); cs_token = (Some ((PLit
-    ('e'::('d'::('m'::(':'::(':'::('E'::('D'::('G'::('e'::('t'::('T'::('o'::('k'::('e'::('n'::('T'::('<'::[])))))))))))))))))) :: ((PHole
-    HType) :: ((PLit ('>'::[])) :: [])))); cs_libs = [] } :: ({ cs_backend =
-    ('c'::('m'::('s'::('_'::('m'::('i'::('n'::('i'::('a'::('o'::('d'::[])))))))))));
-    cs_name =
-    ('E'::('l'::('e'::('c'::('t'::('r'::('o'::('n'::('s'::[])))))))));
-    cs_includes =
-    (('D'::('a'::('t'::('a'::('F'::('o'::('r'::('m'::('a'::('t'::('s'::('/'::('P'::('a'::('t'::('C'::('a'::('n'::('d'::('i'::('d'::('a'::('t'::('e'::('s'::('/'::('i'::('n'::('t'::('e'::('r'::('f'::('a'::('c'::('e'::('/'::('E'::('l'::('e'::('c'::('t'::('r'::('o'::('n'::('.'::('h'::[])))))))))))))))))))))))))))))))))))))))))))))) :: (('D'::('a'::('t'::('a'::('F'::('o'::('r'::('m'::('a'::('t'::('s'::('/'::('E'::('g'::('a'::('m'::('m'::('a'::('C'::('a'::('n'::('d'::('i'::('d'::('a'::('t'::('e'::('s'::('/'::('i'::('n'::('t'::('e'::('r'::('f'::('a'::('c'::('e'::('/'::('G'::('s'::('f'::('E'::('l'::('e'::('c'::('t'::('r'::('o'::('n'::('.'::('h'::[])))))))))))))))))))))))))))))))))))))))))))))))))))) :: []));
-    cs_kind = KColl; cs_type =
-    ('p'::('a'::('t'::(':'::(':'::('E'::('l'::('e'::('c'::('t'::('r'::('o'::('n'::('C'::('o'::('l'::('l'::('e'::('c'::('t'::('i'::('o'::('n'::[])))))))))))))))))))))));
-    cs_pd_type = (S O); cs_elem =
-    ('p'::('a'::('t'::(':'::(':'::('E'::('l'::('e'::('c'::('t'::('r'::('o'::('n'::[])))))))))))));
-    cs_pd_elem = O; cs_str = ((PLit
-    ('H'::('a'::('n'::('d'::('l'::('e'::('<'::[])))))))) :: ((PHole
-    HType) :: ((PLit ('>'::[])) :: []))); cs_token = (Some ((PLit
-    ('e'::('d'::('m'::(':'::(':'::('E'::('D'::('G'::('e'::('t'::('T'::('o'::('k'::('e'::('n'::('T'::('<'::[])))))))))))))))))) :: ((PHole
-    HType) :: ((PLit ('>'::[])) :: [])))); cs_libs = [] } :: []))
-
-(** val cms_miniaod_coder : coder **)
-
-let cms_miniaod_coder =
-  { cd_lines = (((PHole HCont) :: ((PLit
-    (' '::('r'::('e'::('s'::('u'::('l'::('t'::(';'::[]))))))))) :: [])) :: (((PLit
-    ('i'::('E'::('v'::('e'::('n'::('t'::('.'::('g'::('e'::('t'::('B'::('y'::('T'::('o'::('k'::('e'::('n'::('('::[]))))))))))))))))))) :: ((PHole
-    HTok) :: ((PLit
-    (','::(' '::('r'::('e'::('s'::('u'::('l'::('t'::(')'::(';'::[]))))))))))) :: []))) :: []));
-    cd_alloc = TokPerCall; cd_init = (Some ((PLit
-    ('c'::('o'::('n'::('s'::('u'::('m'::('e'::('s'::('<'::[])))))))))) :: ((PHole
-    HType) :: ((PLit
-    ('>'::('('::('e'::('d'::('m'::(':'::(':'::('I'::('n'::('p'::('u'::('t'::('T'::('a'::('g'::('('::('c'::('o'::('l'::('l'::('e'::('c'::('t'::('i'::('o'::('n'::('_'::('n'::('a'::('m'::('e'::(')'::(')'::[])))))))))))))))))))))))))))))))))) :: [])))) }
-
-(** val cms_miniaod_backend : backend **)
-
-let cms_miniaod_backend =
-  { b_key =
-    ('c'::('m'::('s'::('_'::('m'::('i'::('n'::('i'::('a'::('o'::('d'::[])))))))))));
-    b_accepts =
-    ('c'::('m'::('s'::('_'::('m'::('i'::('n'::('i'::('a'::('o'::('d'::[])))))))))));
-    b_table = cms_miniaod_table; b_coder = cms_miniaod_coder }
-
-(** val md_kinds : mdkind list **)
-
-let md_kinds =
-  { mk_type =
-    ('a'::('d'::('d'::('_'::('a'::('t'::('l'::('a'::('s'::('_'::('e'::('v'::('e'::('n'::('t'::('_'::('c'::('o'::('l'::('l'::('e'::('c'::('t'::('i'::('o'::('n'::('_'::('i'::('n'::('f'::('o'::[])))))))))))))))))))))))))))))));
-    mk_keys =
-    (('m'::('e'::('t'::('a'::('d'::('a'::('t'::('a'::('_'::('t'::('y'::('p'::('e'::[]))))))))))))) :: (('n'::('a'::('m'::('e'::[])))) :: (('i'::('n'::('c'::('l'::('u'::('d'::('e'::('_'::('f'::('i'::('l'::('e'::('s'::[]))))))))))))) :: (('c'::('o'::('n'::('t'::('a'::('i'::('n'::('e'::('r'::('_'::('t'::('y'::('p'::('e'::[])))))))))))))) :: (('e'::('l'::('e'::('m'::('e'::('n'::('t'::('_'::('t'::('y'::('p'::('e'::[])))))))))))) :: (('c'::('o'::('n'::('t'::('a'::('i'::('n'::('s'::('_'::('c'::('o'::('l'::('l'::('e'::('c'::('t'::('i'::('o'::('n'::[]))))))))))))))))))) :: (('l'::('i'::('n'::('k'::('_'::('l'::('i'::('b'::('r'::('a'::('r'::('i'::('e'::('s'::[])))))))))))))) :: [])))))));
-    mk_bname = ('a'::('t'::('l'::('a'::('s'::[]))))); mk_coll = { cc_name =
-    ('a'::('t'::('l'::('a'::('s'::('_'::('x'::('a'::('o'::('d'::('_'::('e'::('v'::('e'::('n'::('t'::('_'::('c'::('o'::('l'::('l'::('e'::('c'::('t'::('i'::('o'::('n'::('_'::('c'::('o'::('l'::('l'::('e'::('c'::('t'::('i'::('o'::('n'::[]))))))))))))))))))))))))))))))))))))));
-    cc_kind = KColl; cc_str = ((PLit
-    ('c'::('o'::('n'::('s'::('t'::(' '::[]))))))) :: ((PHole HType) :: ((PLit
-    ('*'::[])) :: []))); cc_token = None; cc_pd_type = (S O); cc_pd_elem = (S
-    O) }; mk_single = (Some { cc_name =
-    ('a'::('t'::('l'::('a'::('s'::('_'::('x'::('a'::('o'::('d'::('_'::('e'::('v'::('e'::('n'::('t'::('_'::('c'::('o'::('l'::('l'::('e'::('c'::('t'::('i'::('o'::('n'::('_'::('c'::('o'::('n'::('t'::('a'::('i'::('n'::('e'::('r'::[])))))))))))))))))))))))))))))))))))));
-    cc_kind = KSingle; cc_str = ((PLit
-    ('c'::('o'::('n'::('s'::('t'::(' '::[]))))))) :: ((PHole HType) :: ((PLit
-    (' '::('*'::[]))) :: []))); cc_token = None; cc_pd_type = (S O);
-    cc_pd_elem = O }); mk_libs = true; mk_elem_ptr = false } :: ({ mk_type =
-    ('a'::('d'::('d'::('_'::('c'::('m'::('s'::('_'::('a'::('o'::('d'::('_'::('e'::('v'::('e'::('n'::('t'::('_'::('c'::('o'::('l'::('l'::('e'::('c'::('t'::('i'::('o'::('n'::('_'::('i'::('n'::('f'::('o'::[])))))))))))))))))))))))))))))))));
-    mk_keys =
-    (('m'::('e'::('t'::('a'::('d'::('a'::('t'::('a'::('_'::('t'::('y'::('p'::('e'::[]))))))))))))) :: (('n'::('a'::('m'::('e'::[])))) :: (('i'::('n'::('c'::('l'::('u'::('d'::('e'::('_'::('f'::('i'::('l'::('e'::('s'::[]))))))))))))) :: (('c'::('o'::('n'::('t'::('a'::('i'::('n'::('e'::('r'::('_'::('t'::('y'::('p'::('e'::[])))))))))))))) :: (('e'::('l'::('e'::('m'::('e'::('n'::('t'::('_'::('t'::('y'::('p'::('e'::[])))))))))))) :: (('c'::('o'::('n'::('t'::('a'::('i'::('n'::('s'::('_'::('c'::('o'::('l'::('l'::('e'::('c'::('t'::('i'::('o'::('n'::[]))))))))))))))))))) :: (('e'::('l'::('e'::('m'::('e'::('n'::('t'::('_'::('p'::('o'::('i'::('n'::('t'::('e'::('r'::[]))))))))))))))) :: [])))))));
-    mk_bname = ('c'::('m'::('s'::('_'::('a'::('o'::('d'::[]))))))); mk_coll =
-    { cc_name =
-    ('c'::('m'::('s'::('_'::('a'::('o'::('d'::('_'::('e'::('v'::('e'::('n'::('t'::('_'::('c'::('o'::('l'::('l'::('e'::('c'::('t'::('i'::('o'::('n'::('_'::('c'::('o'::('l'::('l'::('e'::('c'::('t'::('i'::('o'::('n'::[])))))))))))))))))))))))))))))))))));
-    cc_kind = KColl; cc_str = ((PLit
-    ('e'::('d'::('m'::(':'::(':'::('H'::('a'::('n'::('d'::('l'::('e'::('<'::[]))))))))))))) :: ((PHole
-    HType) :: ((PLit ('>'::[])) :: []))); cc_token = None; cc_pd_type = (S
-    O); cc_pd_elem = O }; mk_single = None; mk_libs = false; mk_elem_ptr =
-    true } :: ({ mk_type =
-    ('a'::('d'::('d'::('_'::('c'::('m'::('s'::('_'::('m'::('i'::('n'::('i'::('a'::('o'::('d'::('_'::('e'::('v'::('e'::('n'::('t'::('_'::('c'::('o'::('l'::('l'::('e'::('c'::('t'::('i'::('o'::('n'::('_'::('i'::('n'::('f'::('o'::[])))))))))))))))))))))))))))))))))))));
-    mk_keys =
-    (('m'::('e'::('t'::('a'::('d'::('a'::('t'::('a'::('_'::('t'::('y'::('p'::('e'::[]))))))))))))) :: (('n'::('a'::('m'::('e'::[])))) :: (('i'::('n'::('c'::('l'::('u'::('d'::('e'::('_'::('f'::('i'::('l'::('e'::('s'::[]))))))))))))) :: (('c'::('o'::('n'::('t'::('a'::('i'::('n'::('e'::('r'::('_'::('t'::('y'::('p'::('e'::[])))))))))))))) :: (('e'::('l'::('e'::('m'::('e'::('n'::('t'::('_'::('t'::('y'::('p'::('e'::[])))))))))))) :: (('c'::('o'::('n'::('t'::('a'::('i'::('n'::('s'::('_'::('c'::('o'::('l'::('l'::('e'::('c'::('t'::('i'::('o'::('n'::[]))))))))))))))))))) :: (('e'::('l'::('e'::('m'::('e'::('n'::('t'::('_'::('p'::('o'::('i'::('n'::('t'::('e'::('r'::[]))))))))))))))) :: [])))))));
-    mk_bname =
-    ('c'::('m'::('s'::('_'::('m'::('i'::('n'::('i'::('a'::('o'::('d'::[])))))))))));
-    mk_coll = { cc_name =
-    ('c'::('m'::('s'::('_'::('m'::('i'::('n'::('i'::('a'::('o'::('d'::('_'::('e'::('v'::('e'::('n'::('t'::('_'::('c'::('o'::('l'::('l'::('e'::('c'::('t'::('i'::('o'::('n'::('_'::('c'::('o'::('l'::('l'::('e'::('c'::('t'::('i'::('o'::('n'::[])))))))))))))))))))))))))))))))))))))));
-    cc_kind = KColl; cc_str = ((PLit
-    ('H'::('a'::('n'::('d'::('l'::('e'::('<'::[])))))))) :: ((PHole
-    HType) :: ((PLit ('>'::[])) :: []))); cc_token = (Some ((PLit
-    ('e'::('d'::('m'::(':'::(':'::('E'::('D'::('G'::('e'::('t'::('T'::('o'::('k'::('e'::('n'::('T'::('<'::[])))))))))))))))))) :: ((PHole
-    HType) :: ((PLit ('>'::[])) :: [])))); cc_pd_type = (S O); cc_pd_elem =
-    O }; mk_single = None; mk_libs = false; mk_elem_ptr = true } :: []))
-
-(** val default_types :
-    (char list * (((char list * char list) * char list) * nat) list) list **)
-
-let default_types =
-  (('a'::('t'::('l'::('a'::('s'::[]))))),
-    ((((('x'::('A'::('O'::('D'::(':'::(':'::('T'::('r'::('u'::('t'::('h'::('P'::('a'::('r'::('t'::('i'::('c'::('l'::('e'::[]))))))))))))))))))),
-    ('p'::('r'::('o'::('d'::('V'::('t'::('x'::[])))))))),
-    ('x'::('A'::('O'::('D'::('T'::('r'::('u'::('t'::('h'::(':'::(':'::('T'::('r'::('u'::('t'::('h'::('V'::('e'::('r'::('t'::('e'::('x'::[]))))))))))))))))))))))),
-    (S
-    O)) :: ((((('x'::('A'::('O'::('D'::(':'::(':'::('T'::('r'::('u'::('t'::('h'::('P'::('a'::('r'::('t'::('i'::('c'::('l'::('e'::[]))))))))))))))))))),
-    ('d'::('e'::('c'::('a'::('y'::('V'::('t'::('x'::[]))))))))),
-    ('x'::('A'::('O'::('D'::('T'::('r'::('u'::('t'::('h'::(':'::(':'::('T'::('r'::('u'::('t'::('h'::('V'::('e'::('r'::('t'::('e'::('x'::[]))))))))))))))))))))))),
-    (S
-    O)) :: ((((('x'::('A'::('O'::('D'::(':'::(':'::('T'::('r'::('u'::('t'::('h'::('P'::('a'::('r'::('t'::('i'::('c'::('l'::('e'::[]))))))))))))))))))),
-    ('p'::('a'::('r'::('e'::('n'::('t'::[]))))))),
-    ('x'::('A'::('O'::('D'::(':'::(':'::('T'::('r'::('u'::('t'::('h'::('P'::('a'::('r'::('t'::('i'::('c'::('l'::('e'::[])))))))))))))))))))),
-    (S
-    O)) :: ((((('x'::('A'::('O'::('D'::(':'::(':'::('T'::('r'::('u'::('t'::('h'::('P'::('a'::('r'::('t'::('i'::('c'::('l'::('e'::[]))))))))))))))))))),
-    ('c'::('h'::('i'::('l'::('d'::[])))))),
-    ('x'::('A'::('O'::('D'::(':'::(':'::('T'::('r'::('u'::('t'::('h'::('P'::('a'::('r'::('t'::('i'::('c'::('l'::('e'::[])))))))))))))))))))),
-    (S
-    O)) :: []))))) :: ((('c'::('m'::('s'::('_'::('a'::('o'::('d'::[]))))))),
-    ((((('r'::('e'::('c'::('o'::(':'::(':'::('T'::('r'::('a'::('c'::('k'::[]))))))))))),
-    ('h'::('i'::('t'::('P'::('a'::('t'::('t'::('e'::('r'::('n'::[]))))))))))),
-    ('r'::('e'::('c'::('o'::(':'::(':'::('H'::('i'::('t'::('P'::('a'::('t'::('t'::('e'::('r'::('n'::[]))))))))))))))))),
-    O) :: ((((('r'::('e'::('c'::('o'::(':'::(':'::('M'::('u'::('o'::('n'::[])))))))))),
-    ('g'::('l'::('o'::('b'::('a'::('l'::('T'::('r'::('a'::('c'::('k'::[])))))))))))),
-    ('r'::('e'::('c'::('o'::(':'::(':'::('T'::('r'::('a'::('c'::('k'::[])))))))))))),
-    (S
-    O)) :: ((((('r'::('e'::('c'::('o'::(':'::(':'::('M'::('u'::('o'::('n'::[])))))))))),
-    ('h'::('i'::('t'::('P'::('a'::('t'::('t'::('e'::('r'::('n'::[]))))))))))),
-    ('r'::('e'::('c'::('o'::(':'::(':'::('H'::('i'::('t'::('P'::('a'::('t'::('t'::('e'::('r'::('n'::[]))))))))))))))))),
-    O) :: ((((('r'::('e'::('c'::('o'::(':'::(':'::('M'::('u'::('o'::('n'::[])))))))))),
-    ('i'::('s'::('P'::('F'::('I'::('s'::('o'::('l'::('a'::('t'::('i'::('o'::('n'::('V'::('a'::('l'::('i'::('d'::[]))))))))))))))))))),
-    ('b'::('o'::('o'::('l'::[]))))),
-    O) :: ((((('r'::('e'::('c'::('o'::(':'::(':'::('M'::('u'::('o'::('n'::[])))))))))),
-    ('i'::('s'::('P'::('F'::('M'::('u'::('o'::('n'::[]))))))))),
-    ('b'::('o'::('o'::('l'::[]))))),
-    O) :: ((((('r'::('e'::('c'::('o'::(':'::(':'::('M'::('u'::('o'::('n'::[])))))))))),
-    ('p'::('f'::('I'::('s'::('o'::('l'::('a'::('t'::('i'::('o'::('n'::('R'::('0'::('4'::[]))))))))))))))),
-    ('r'::('e'::('c'::('o'::(':'::(':'::('M'::('u'::('o'::('n'::('P'::('F'::('I'::('s'::('o'::('l'::('a'::('t'::('i'::('o'::('n'::[])))))))))))))))))))))),
-    O) :: ((((('r'::('e'::('c'::('o'::(':'::(':'::('G'::('s'::('f'::('E'::('l'::('e'::('c'::('t'::('r'::('o'::('n'::[]))))))))))))))))),
-    ('g'::('s'::('f'::('T'::('r'::('a'::('c'::('k'::[]))))))))),
-    ('r'::('e'::('c'::('o'::(':'::(':'::('G'::('s'::('f'::('T'::('r'::('a'::('c'::('k'::[]))))))))))))))),
-    (S
-    O)) :: ((((('r'::('e'::('c'::('o'::(':'::(':'::('G'::('s'::('f'::('E'::('l'::('e'::('c'::('t'::('r'::('o'::('n'::[]))))))))))))))))),
-    ('i'::('s'::('E'::('B'::[]))))), ('b'::('o'::('o'::('l'::[]))))),
-    O) :: ((((('r'::('e'::('c'::('o'::(':'::(':'::('G'::('s'::('f'::('E'::('l'::('e'::('c'::('t'::('r'::('o'::('n'::[]))))))))))))))))),
-    ('i'::('s'::('E'::('E'::[]))))), ('b'::('o'::('o'::('l'::[]))))),
-    O) :: ((((('r'::('e'::('c'::('o'::(':'::(':'::('G'::('s'::('f'::('E'::('l'::('e'::('c'::('t'::('r'::('o'::('n'::[]))))))))))))))))),
-    ('p'::('a'::('s'::('s'::('i'::('n'::('g'::('P'::('f'::('l'::('o'::('w'::('P'::('r'::('e'::('s'::('e'::('l'::('e'::('c'::('t'::('i'::('o'::('n'::[]))))))))))))))))))))))))),
-    ('b'::('o'::('o'::('l'::[]))))),
-    O) :: ((((('r'::('e'::('c'::('o'::(':'::(':'::('G'::('s'::('f'::('E'::('l'::('e'::('c'::('t'::('r'::('o'::('n'::[]))))))))))))))))),
-    ('s'::('u'::('p'::('e'::('r'::('C'::('l'::('u'::('s'::('t'::('e'::('r'::[]))))))))))))),
-    ('r'::('e'::('c'::('o'::(':'::(':'::('S'::('u'::('p'::('e'::('r'::('C'::('l'::('u'::('s'::('t'::('e'::('r'::('R'::('e'::('f'::[])))))))))))))))))))))),
-    (S
-    O)) :: ((((('r'::('e'::('c'::('o'::(':'::(':'::('G'::('s'::('f'::('E'::('l'::('e'::('c'::('t'::('r'::('o'::('n'::[]))))))))))))))))),
-    ('p'::('f'::('I'::('s'::('o'::('l'::('a'::('t'::('i'::('o'::('n'::('V'::('a'::('r'::('i'::('a'::('b'::('l'::('e'::('s'::[]))))))))))))))))))))),
-    ('r'::('e'::('c'::('o'::(':'::(':'::('G'::('s'::('f'::('E'::('l'::('e'::('c'::('t'::('r'::('o'::('n'::(':'::(':'::('P'::('f'::('l'::('o'::('w'::('I'::('s'::('o'::('l'::('a'::('t'::('i'::('o'::('n'::('V'::('a'::('r'::('i'::('a'::('b'::('l'::('e'::('s'::[]))))))))))))))))))))))))))))))))))))))))))),
-    O) :: ((((('r'::('e'::('c'::('o'::(':'::(':'::('G'::('s'::('f'::('T'::('r'::('a'::('c'::('k'::[])))))))))))))),
-    ('t'::('r'::('a'::('c'::('k'::('e'::('r'::('E'::('x'::('p'::('e'::('c'::('t'::('e'::('d'::('H'::('i'::('t'::('s'::('I'::('n'::('n'::('e'::('r'::[]))))))))))))))))))))))))),
-    ('r'::('e'::('c'::('o'::(':'::(':'::('H'::('i'::('t'::('P'::('a'::('t'::('t'::('e'::('r'::('n'::[]))))))))))))))))),
-    O) :: [])))))))))))))) :: ((('c'::('m'::('s'::('_'::('m'::('i'::('n'::('i'::('a'::('o'::('d'::[]))))))))))),
-    ((((('r'::('e'::('c'::('o'::(':'::(':'::('T'::('r'::('a'::('c'::('k'::('R'::('e'::('f'::[])))))))))))))),
-    ('h'::('i'::('t'::('P'::('a'::('t'::('t'::('e'::('r'::('n'::[]))))))))))),
-    ('r'::('e'::('c'::('o'::(':'::(':'::('H'::('i'::('t'::('P'::('a'::('t'::('t'::('e'::('r'::('n'::[]))))))))))))))))),
-    O) :: ((((('p'::('a'::('t'::(':'::(':'::('M'::('u'::('o'::('n'::[]))))))))),
-    ('g'::('l'::('o'::('b'::('a'::('l'::('T'::('r'::('a'::('c'::('k'::[])))))))))))),
-    ('r'::('e'::('c'::('o'::(':'::(':'::('T'::('r'::('a'::('c'::('k'::('R'::('e'::('f'::[]))))))))))))))),
-    (S
-    O)) :: ((((('p'::('a'::('t'::(':'::(':'::('M'::('u'::('o'::('n'::[]))))))))),
-    ('i'::('s'::('P'::('F'::('I'::('s'::('o'::('l'::('a'::('t'::('i'::('o'::('n'::('V'::('a'::('l'::('i'::('d'::[]))))))))))))))))))),
-    ('b'::('o'::('o'::('l'::[]))))),
-    O) :: ((((('p'::('a'::('t'::(':'::(':'::('M'::('u'::('o'::('n'::[]))))))))),
-    ('i'::('s'::('P'::('F'::('M'::('u'::('o'::('n'::[]))))))))),
-    ('b'::('o'::('o'::('l'::[]))))),
-    O) :: ((((('p'::('a'::('t'::(':'::(':'::('M'::('u'::('o'::('n'::[]))))))))),
-    ('p'::('f'::('I'::('s'::('o'::('l'::('a'::('t'::('i'::('o'::('n'::('R'::('0'::('4'::[]))))))))))))))),
-    ('r'::('e'::('c'::('o'::(':'::(':'::('M'::('u'::('o'::('n'::('P'::('F'::('I'::('s'::('o'::('l'::('a'::('t'::('i'::('o'::('n'::[])))))))))))))))))))))),
-    O) :: ((((('p'::('a'::('t'::(':'::(':'::('E'::('l'::('e'::('c'::('t'::('r'::('o'::('n'::[]))))))))))))),
-    ('g'::('s'::('f'::('T'::('r'::('a'::('c'::('k'::[]))))))))),
-    ('r'::('e'::('c'::('o'::(':'::(':'::('G'::('s'::('f'::('T'::('r'::('a'::('c'::('k'::('R'::('e'::('f'::[])))))))))))))))))),
-    (S
-    O)) :: ((((('p'::('a'::('t'::(':'::(':'::('E'::('l'::('e'::('c'::('t'::('r'::('o'::('n'::[]))))))))))))),
-    ('i'::('s'::('E'::('B'::[]))))), ('b'::('o'::('o'::('l'::[]))))),
-    O) :: ((((('p'::('a'::('t'::(':'::(':'::('E'::('l'::('e'::('c'::('t'::('r'::('o'::('n'::[]))))))))))))),
-    ('i'::('s'::('E'::('E'::[]))))), ('b'::('o'::('o'::('l'::[]))))),
-    O) :: ((((('p'::('a'::('t'::(':'::(':'::('E'::('l'::('e'::('c'::('t'::('r'::('o'::('n'::[]))))))))))))),
-    ('p'::('a'::('s'::('s'::('i'::('n'::('g'::('P'::('f'::('l'::('o'::('w'::('P'::('r'::('e'::('s'::('e'::('l'::('e'::('c'::('t'::('i'::('o'::('n'::[]))))))))))))))))))))))))),
-    ('b'::('o'::('o'::('l'::[]))))),
-    O) :: ((((('p'::('a'::('t'::(':'::(':'::('E'::('l'::('e'::('c'::('t'::('r'::('o'::('n'::[]))))))))))))),
-    ('s'::('u'::('p'::('e'::('r'::('C'::('l'::('u'::('s'::('t'::('e'::('r'::[]))))))))))))),
-    ('r'::('e'::('c'::('o'::(':'::(':'::('S'::('u'::('p'::('e'::('r'::('C'::('l'::('u'::('s'::('t'::('e'::('r'::('R'::('e'::('f'::[])))))))))))))))))))))),
-    (S
-    O)) :: ((((('p'::('a'::('t'::(':'::(':'::('E'::('l'::('e'::('c'::('t'::('r'::('o'::('n'::[]))))))))))))),
-    ('p'::('f'::('I'::('s'::('o'::('l'::('a'::('t'::('i'::('o'::('n'::('V'::('a'::('r'::('i'::('a'::('b'::('l'::('e'::('s'::[]))))))))))))))))))))),
-    ('r'::('e'::('c'::('o'::(':'::(':'::('G'::('s'::('f'::('E'::('l'::('e'::('c'::('t'::('r'::('o'::('n'::(':'::(':'::('P'::('f'::('l'::('o'::('w'::('I'::('s'::('o'::('l'::('a'::('t'::('i'::('o'::('n'::('V'::('a'::('r'::('i'::('a'::('b'::('l'::('e'::('s'::[]))))))))))))))))))))))))))))))))))))))))))),
-    O) :: ((((('r'::('e'::('c'::('o'::(':'::(':'::('G'::('s'::('f'::('T'::('r'::('a'::('c'::('k'::[])))))))))))))),
-    ('t'::('r'::('a'::('c'::('k'::('e'::('r'::('E'::('x'::('p'::('e'::('c'::('t'::('e'::('d'::('H'::('i'::('t'::('s'::('I'::('n'::('n'::('e'::('r'::[]))))))))))))))))))))))))),
-    ('r'::('e'::('c'::('o'::(':'::(':'::('H'::('i'::('t'::('P'::('a'::('t'::('t'::('e'::('r'::('n'::[]))))))))))))))))),
-    O) :: []))))))))))))) :: []))
-
-(** val coll_env : cenv **)
-
-let coll_env =
-  { c_backends =
-    (atlas_backend :: (cms_aod_backend :: (cms_miniaod_backend :: [])));
-    c_kinds = md_kinds; c_default_types = default_types }
-
 (** val dispatch : char list -> sexp -> sexp **)
 
-let dispatch cmd arg0 =
+let dispatch cmd arg =
   if eqb0 cmd ('c'::('1'::('5'::('.'::('g'::('e'::('n'::[])))))))
-  then run_gen arg0
+  then run_gen arg
   else if eqb0 cmd
             ('c'::('1'::('2'::('.'::('a'::('u'::('d'::('i'::('t'::[])))))))))
        then audit math_env documented
-       else if eqb0 cmd
-                 ('c'::('0'::('6'::('.'::('q'::('u'::('e'::('r'::('y'::[])))))))))
-            then run_query_wire coll_env arg0
-            else if eqb0 cmd
-                      ('c'::('0'::('6'::('.'::('s'::('u'::('b'::('s'::('t'::[])))))))))
-                 then run_subst_wire arg0
-                 else if eqb0 cmd
-                           ('c'::('0'::('6'::('.'::('t'::('a'::('b'::('l'::('e'::('s'::[]))))))))))
-                      then run_tables_wire coll_env
-                      else s_tag
-                             ('u'::('n'::('k'::('n'::('o'::('w'::('n'::('-'::('c'::('o'::('m'::('m'::('a'::('n'::('d'::[])))))))))))))))
-                             ((SAtom cmd) :: [])
+       else s_tag
+              ('u'::('n'::('k'::('n'::('o'::('w'::('n'::('-'::('c'::('o'::('m'::('m'::('a'::('n'::('d'::[])))))))))))))))
+              ((SAtom cmd) :: [])
